@@ -1,54 +1,76 @@
 """C18 - ALPN negotiation with the client is consistent with offers and upstream.
 
+Every rule compares semantics, not shape: the callback and the wiring are *executed* on abstract inputs (mitmlint/pyint.py follows
+self. / module helpers, module constants, match, comprehensions, generators by itself; logging is a no-op), never matched textually.
+
 Decided:
-  R18.1 guard dominance in ``alpn_select_callback``: on every path the returned value is ``SSL.NO_OVERLAPPING_PROTOCOLS`` or a
-        name proven to be a member of the ``options`` parameter (latest fact about it on the path is ``x in options`` taken true,
-        or it is the loop variable of ``for x in options``).  => selected in offered or none, for *all* inputs.
-  R18.2 decision table: ``alpn_select_callback`` is executed by a small concrete AST interpreter (anything it does not model is an
-        ANALYSIS-ERROR) for every offer list of length <= 3 (quick: <= 2) over the protocol classes
-        {h2, h3, http/1.1, http/1.0, http/0.9, unknown}, client_alpn in {None, b"", each offered, one not offered},
-        server_alpn in {None, b"", each offered, each known-but-not-offered}, http2 in {T, F}.  Expected:
+  R18.1 provenance of the answer of ``alpn_select_callback``: every path of the callback is executed abstractly (class _Prov) - a value is
+        MEM when it is proven equal to an element of the ``options`` the callback was given (loop variable over the offers or over a
+        comprehension / generator / filter / slice / sorted / intersection of them, ``next()`` / indexing of such a list, a name or
+        access path for which ``x in <offers>`` holds on the path - also through not/and/or, ``any(x == o for o in offers)``,
+        single-expression helper predicates - captures of ``match``, helper functions of the module summarised on the abstract
+        arguments).  A return is proven when it is MEM or ``SSL.NO_OVERLAPPING_PROTOCOLS`` on every path => selected in offered or
+        none for *all* inputs.  Where the path proof does not apply (a construction it cannot follow) the return is decided by the
+        exhaustive interpretation of R18.2's domain instead (said so in the evidence); a violation is only ever reported together
+        with a concrete counterexample (offers, app data, answer).
+  R18.2 decision table: ``alpn_select_callback`` is interpreted (pyint; anything it does not model is an ANALYSIS-ERROR) for every offer
+        list of length <= 3 (quick: <= 2) over the protocol classes {h2, h3, http/1.1, http/1.0, http/0.9, unknown} plus every other
+        protocol constant the callback or HTTP_ALPNS names, client_alpn in {None, b"", each offered, not offered}, server_alpn in
+        {None, b"", each offered, each known-but-not-offered}, http2 in {T, F}.  Expected:
           client override set      -> it if offered else none          (an addon / the secure-web-proxy rule chose it explicitly)
           upstream protocol known  -> it if offered else none          (F-C18 was the "else" falling through; repaired, mutant kept)
           upstream negotiated none -> none
           upstream unknown         -> a member of HTTP_ALPNS (http2 on) / HTTP1_ALPNS (http2 off) that was offered - the client's first
                                       such offer - and none iff there is no such offer; never h2 with http2 off.
-        plus the constants: HTTP1_ALPNS contains neither h2 nor h3.
-  R18.3 wiring in ``TlsConfig``: ``tls_start_client`` stores AppData(client_alpn, server_alpn, http2) with client_alpn = b"http/1.1"
-        exactly in the worlds where the layer stack is [HttpProxy, <one more layer>] (evaluated semantically on sample stacks) and
-        ``client.alpn`` otherwise, server_alpn = ``server.alpn`` of ``tls_start.context.server``, http2 = the option; the callback is
-        handed to ``create_client_proxy_context`` which installs it; ``tls_start_server`` never mirrors ``h2`` upstream with http2 off.
+        plus the constants: HTTP1_ALPNS contains neither h2 nor h3.  Additional (informational) AppData fields and the logging
+        configuration must make no difference: the table is re-decided for each of their values.
+  R18.3 wiring in ``TlsConfig``: on every path on which ``tls_start_client`` creates the connection it stores exactly one app data object
+        (AppData(...) / dict, in place or via a local) on that connection, with server_alpn = ``server.alpn`` of the context's server and
+        http2 = the option (values resolved through local aliases); client_alpn - the statements computing it are interpreted, helpers
+        included - is b"http/1.1" exactly in the worlds where the layer stack (read from next_layer.py) is the outer connection of a
+        secure web proxy and ``client.alpn`` otherwise; the callback is handed to ``create_client_proxy_context`` (in tls_start_client or
+        a helper), which installs it on every path possible when it is given; ``tls_start_server`` (statements setting alpn_offers,
+        interpreted, helpers included) never mirrors ``h2`` upstream with http2 off.
+  R18.4 ``ClientTLSLayer.__init__`` resets, for TLS-over-TLS, every client attribute the override depends on (dependence found by
+        re-computing the override with one attribute of an established session changed at a time) and afterwards the override equals
+        that of a fresh connection.
 Not decided: OpenSSL calling the callback / honouring its answer (library).
 """
 
 from __future__ import annotations
 
 import ast
+import builtins
+import copy
 import itertools
+from types import SimpleNamespace
 
 from ..core import AnalysisError
 from ..core import norm
 from ..model import attr_chain
 from ..model import call_name
 from ..model import calls_in
+from ..model import eval_order
 from ..model import last_attr
-from ..model import walk_in_order
-from ..paths import C
-from ..paths import is_const
 from ..paths import R
 from ..paths import traces_of
+from ..pyint import ClassRef
+from ..pyint import Func
+from ..pyint import Interp
+from ..pyint import Raised
+from ..pyint import Rec
+from ..pyint import _Return as _PyReturn
 from ..selftest import Mutant
-from ._helpers_B import ceval
+from ._helpers_B import feasible
 from ._helpers_B import FlowSpec
-from ._helpers_B import MiniInterp
 from ._helpers_B import module_const
-from ._helpers_B import NotAnAtom
 
 PROP = "C18"
 REG = {
     "strength": "strong",
-    "technique": "guard dominance on all paths (membership facts) + exhaustive decision table by concrete AST interpretation over a finite "
-    "protocol-class domain + dataflow of the AppData wiring evaluated on sample layer stacks",
+    "technique": "abstract execution of every path of the callback (provenance of the answer: membership facts, comprehensions, match, helpers; fallback: exhaustive "
+    "interpretation, alarms only with a counterexample) + exhaustive decision table by AST interpretation (pyint) over a finite protocol-class domain + "
+    "dataflow / interpretation of the AppData wiring on layer stacks read from next_layer.py",
     "claim": "alpn_select_callback returns an offered protocol or NO_OVERLAPPING_PROTOCOLS on every path; over the finite class domain it "
     "implements exactly the override / upstream-known / upstream-none / generic table of the property; tls_start_client feeds it "
     "client_alpn=http/1.1 exactly for the secure-web-proxy outer connection, server.alpn and the http2 option; h2 is not mirrored upstream with http2 off.",
@@ -64,101 +86,1085 @@ H2, H3, H11, H10, H09, UNK = b"h2", b"h3", b"http/1.1", b"http/1.0", b"http/0.9"
 CLASSES = (H2, H3, H11, H10, H09, UNK)
 
 
-class RetSpec(FlowSpec):
-    def events(self, node, st):
-        out = list(super().events(node, st))
-        if isinstance(node, ast.Return):
-            out.append(("ret", node.value))
+# ---- the semantic engine shared by R18.1 (fallback), R18.2, R18.3 and R18.4 ---------------------------
+
+
+class _NullLogger:
+    """`logging` has no effect on the decision: every logging call is a no-op; ``isEnabledFor`` answers what the rule chooses."""
+
+    def __init__(self, enabled):
+        self._enabled = enabled
+        self.asked = False
+
+    def _noop(self, *a, **k):
+        return None
+
+    debug = info = warning = warn = error = critical = exception = log = _noop
+
+    def isEnabledFor(self, *a):
+        self.asked = True
+        return self._enabled
+
+    def getEffectiveLevel(self):
+        self.asked = True
+        return 10 if self._enabled else 30
+
+    def getChild(self, *a):
+        return self
+
+
+_SSL = SimpleNamespace(NO_OVERLAPPING_PROTOCOLS=NONE)
+
+
+class _Sem(Interp):
+    """pyint with (a) a null ``logging`` and the one pyOpenSSL constant of the callback, (b) generator expressions as single-pass
+    iterators (``next(gen, default)``), (c) ``A | B`` of classes as the isinstance union, (d) a record of which ``return`` statement
+    of the function under test produced the answer."""
+
+    def __init__(self, model, log_enabled=True, own_returns=()):
+        self.logger = _NullLogger(log_enabled)
+        lg = self.logger
+        logging_stub = SimpleNamespace(DEBUG=10, INFO=20, WARNING=30, WARN=30, ERROR=40, CRITICAL=50, NOTSET=0, getLogger=lambda *a: lg,
+                                       debug=lg._noop, info=lg._noop, warning=lg._noop, error=lg._noop, log=lg._noop, exception=lg._noop, critical=lg._noop)
+        super().__init__(model, trusted_modules={"logging": logging_stub, "OpenSSL.SSL": _SSL, "OpenSSL": SimpleNamespace(SSL=_SSL)})
+        self.own_returns = {id(n) for n in own_returns}
+        self.last_ret = None
+
+    def stmt(self, st, env, mod, depth):
+        if isinstance(st, ast.Return) and id(st) in self.own_returns:
+            self.last_ret = st
+        return super().stmt(st, env, mod, depth)
+
+    def comp(self, e, env, mod, depth):
+        out = super().comp(e, env, mod, depth)
+        return iter(out) if isinstance(e, ast.GeneratorExp) else out
+
+    def binop(self, op, l, r, node):
+        if isinstance(op, ast.BitOr) and all(isinstance(x, (ClassRef, type)) or (isinstance(x, tuple) and x and all(isinstance(y, (ClassRef, type)) for y in x)) for x in (l, r)):
+            flat = []
+            for x in (l, r):
+                flat.extend(x if isinstance(x, tuple) else [x])
+            return tuple(flat)  # isinstance(v, A | B) == isinstance(v, (A, B))
+        return super().binop(op, l, r, node)
+
+    def native_call(self, f, args, kwargs, where):
+        if isinstance(getattr(f, "__self__", None), _NullLogger):
+            return f(*args, **kwargs)
+        if f in (sorted, min, max) and isinstance(kwargs.get("key"), Func):
+            key = kwargs["key"]
+            kwargs = {**kwargs, "key": lambda x: self.apply(key, [x], {}, 1)}
+        return super().native_call(f, args, kwargs, where)
+
+    def name(self, ident, env, mod, depth, node):
+        try:
+            return super().name(ident, env, mod, depth, node)
+        except AnalysisError:
+            if ident in ("filter", "map"):
+                return ("$builtin", ident)
+            raise
+
+    def builtin(self, name, args, kwargs, e, env, mod, depth):
+        if name == "filter" and len(args) == 2:
+            items = self.iterate(args[1], e)
+            return iter([x for x in items if self.truthy(x if args[0] is None else self.apply(args[0], [x], {}, depth, e))])
+        if name == "map" and len(args) == 2:
+            return iter([self.apply(args[0], [x], {}, depth, e) for x in self.iterate(args[1], e)])
+        return super().builtin(name, args, kwargs, e, env, mod, depth)
+
+
+def _own_returns(fn):
+    """Return statements of ``fn`` itself (not of nested functions / lambdas)."""
+    out = []
+
+    def rec(n):
+        for c in ast.iter_child_nodes(n):
+            if isinstance(c, (ast.FunctionDef, ast.AsyncFunctionDef, ast.Lambda, ast.ClassDef)):
+                continue
+            if isinstance(c, ast.Return):
+                out.append(c)
+            rec(c)
+
+    rec(fn)
+    return out
+
+
+# ---- R18.1: provenance of the returned value (abstract execution of every path) ------------------------
+#
+# Abstract values: a frozenset of alternatives for a scalar -
+#     MEM  "equal to an element of the offers the callback was given"      NOV  SSL.NO_OVERLAPPING_PROTOCOLS
+#     ("c", k)  the constant k                                             ANY  anything
+# SUB for an iterable all of whose elements are MEM (the offers themselves, a comprehension / generator / filter / slice / sorted /
+# set-intersection of them, a list literal of proven members ...), ("tup", items) for a tuple display.
+# Conditions refine the environment on both branches (`x in <SUB>`, `x not in <SUB>`, `is None`, `== const`, truthiness, not/and/or,
+# `any(x == o for o in <SUB>)`, single-expression helper predicates by substitution); loops are run to a fixpoint; helpers of the same
+# module are summarised by executing them on the abstract arguments.  A return is *proven* when its value is within {MEM, NOV} on every
+# path.  Whatever the executor cannot follow ends the proof attempt (_NoProof): the return sites are then decided by the exhaustive
+# interpretation of R18.2's domain - never by a guess and never by an alarm without a concrete counterexample.
+
+MEM, NOV, ANY = "member", "none", "?"
+SUB = ("sub",)
+UNKNOWN = frozenset([ANY])
+_SUB_KEEPING = ("list", "tuple", "sorted", "reversed", "iter", "set", "frozenset")
+_PURE_METHODS = {
+    "get", "keys", "values", "items", "copy", "index", "count", "startswith", "endswith", "decode", "encode", "lower", "upper", "strip",
+    "split", "join", "format", "get_app_data", "isEnabledFor", "hex", "isdisjoint", "issubset", "issuperset",
+}
+
+
+class _NoProof(Exception):
+    pass
+
+
+def _A(*atoms):
+    return frozenset(atoms)
+
+
+def _scalar(v):
+    return isinstance(v, frozenset)
+
+
+def _tup(v):
+    return isinstance(v, tuple) and len(v) == 2 and v[0] == "tup"
+
+
+def _has_sub(v):
+    return v == SUB or (_tup(v) and any(_has_sub(x) for x in v[1]))
+
+
+def _join(a, b):
+    if a == b:
+        return a
+    if _scalar(a) and _scalar(b):
+        return UNKNOWN if ANY in a or ANY in b else a | b
+    if _tup(a) and _tup(b) and len(a[1]) == len(b[1]):
+        return ("tup", tuple(_join(x, y) for x, y in zip(a[1], b[1])))
+    return UNKNOWN
+
+
+def _members_only(v):
+    return _scalar(v) and bool(v) and v <= {MEM}
+
+
+def _same_const(a, b):
+    return type(a) is type(b) and a == b
+
+
+def _path_key(k):
+    return "." in k or "[" in k
+
+
+def _join_env(a, b):
+    out = {}
+    for k in set(a) | set(b):
+        if k in a and k in b:
+            out[k] = _join(a[k], b[k])
+        elif not _path_key(k):
+            out[k] = a.get(k, b.get(k))  # a local bound on one side only: using it on the other side raises NameError
+    return out
+
+
+def _dedup(envs):
+    seen, out = set(), []
+    for e in envs:
+        k = frozenset(e.items())
+        if k not in seen:
+            seen.add(k)
+            out.append(e)
+    return out
+
+
+class _Subst(ast.NodeTransformer):
+    def __init__(self, mapping):
+        self.mapping = mapping
+
+    def visit_Name(self, n):
+        return copy.deepcopy(self.mapping[n.id]) if n.id in self.mapping else n
+
+
+class _Prov:
+    def __init__(self, mod, fn):
+        self.mod = mod
+        self.fn = fn
+        self.steps = 0
+        self.depth = 0
+        self.local_funcs = {}
+        self._modvals = {}
+
+    # -- keys / lookup ---------------------------------------------------------------------------
+    def key(self, e):
+        if isinstance(e, ast.Name):
+            return e.id
+        if isinstance(e, ast.Attribute):
+            k = self.key(e.value)
+            return f"{k}.{e.attr}" if k else None
+        if isinstance(e, ast.Subscript) and isinstance(e.slice, ast.Constant):
+            k = self.key(e.value)
+            return f"{k}[{e.slice.value!r}]" if k else None
+        return None
+
+    def root(self, e):
+        while isinstance(e, (ast.Attribute, ast.Subscript, ast.Call)):
+            e = e.func if isinstance(e, ast.Call) else e.value
+        return e.id if isinstance(e, ast.Name) else None
+
+    def is_logging(self, name, _depth=0):
+        """is the module-level name ``name`` the logging module or a logger obtained from it?"""
+        if name is None or _depth > 3:
+            return False
+        if self.mod.imports.get(name, "").split(".")[0] == "logging":
+            return True
+        vals = self.mod.assigns(name)
+        return len(vals) == 1 and isinstance(vals[0], ast.Call) and self.is_logging(self.root(vals[0]), _depth + 1)
+
+    def modval(self, name):
+        if name not in self._modvals:
+            self._modvals[name] = UNKNOWN  # recursion guard
+            vals = self.mod.assigns(name)
+            if len(vals) == 1:
+                try:
+                    self._modvals[name] = self.ev(vals[0], {})
+                except _NoProof:
+                    pass
+        return self._modvals[name]
+
+    def bind(self, env, name, v):
+        for k in [k for k in env if k.startswith(name + ".") or k.startswith(name + "[")]:
+            del env[k]
+        env[name] = v
+
+    def drop_paths(self, env):
+        for k in [k for k in env if _path_key(k)]:
+            del env[k]
+
+    def tick(self):
+        self.steps += 1
+        if self.steps > 60000:
+            raise _NoProof("path enumeration bound exceeded")
+
+    # -- expressions -----------------------------------------------------------------------------
+    def ev(self, e, env):
+        v = self._ev(e, env)
+        if isinstance(e, (ast.BoolOp, ast.IfExp, ast.ListComp, ast.SetComp, ast.GeneratorExp, ast.DictComp)):
+            # operands evaluated conditionally / in a scope of their own: what they bind with := is not known afterwards
+            # (a condition on `(y := ...)` still refines y on its branches)
+            first = e.values[0] if isinstance(e, ast.BoolOp) else (e.test if isinstance(e, ast.IfExp) else None)
+            always = {id(n) for n in ast.walk(first)} if first is not None else set()
+            for n in ast.walk(e):
+                if isinstance(n, ast.NamedExpr) and id(n) not in always:
+                    self.bind(env, n.target.id, UNKNOWN)
+        return v
+
+    def _ev(self, e, env):
+        self.tick()
+        if e is None:
+            return _A(("c", None))
+        if isinstance(e, ast.Constant):
+            try:
+                hash(e.value)
+            except TypeError:
+                return UNKNOWN
+            return _A(("c", e.value))
+        if isinstance(e, ast.Name):
+            if e.id in env:
+                return env[e.id]
+            if e.id in ("True", "False", "None"):
+                return _A(("c", {"True": True, "False": False, "None": None}[e.id]))
+            return self.modval(e.id)
+        if isinstance(e, ast.Attribute):
+            if e.attr == "NO_OVERLAPPING_PROTOCOLS":
+                return _A(NOV)
+            self.ev(e.value, env)
+            k = self.key(e)
+            return env.get(k, UNKNOWN) if k else UNKNOWN
+        if isinstance(e, ast.Subscript):
+            base = self.ev(e.value, env)
+            if isinstance(e.slice, ast.Slice):
+                for x in (e.slice.lower, e.slice.upper, e.slice.step):
+                    if x is not None:
+                        self.ev(x, env)
+                return SUB if base == SUB else UNKNOWN
+            idx = self.ev(e.slice, env)
+            if base == SUB:
+                return _A(MEM)  # or IndexError
+            if _tup(base):
+                if _scalar(idx) and len(idx) == 1:
+                    (a,) = idx
+                    if isinstance(a, tuple) and a[0] == "c" and isinstance(a[1], int) and not isinstance(a[1], bool) and -len(base[1]) <= a[1] < len(base[1]):
+                        return base[1][a[1]]
+                out = None
+                for x in base[1]:
+                    out = x if out is None else _join(out, x)
+                return out if out is not None else UNKNOWN
+            k = self.key(e)
+            return env.get(k, UNKNOWN) if k else UNKNOWN
+        if isinstance(e, ast.IfExp):
+            self.ev(e.test, env)
+            parts = []
+            for truth, branch in ((True, e.body), (False, e.orelse)):
+                env2 = self.refine(e.test, env, truth)
+                if env2 is not None:
+                    parts.append(self.ev(branch, env2))
+            out = None
+            for p in parts:
+                out = p if out is None else _join(out, p)
+            return out if out is not None else UNKNOWN
+        if isinstance(e, ast.BoolOp):
+            is_or = isinstance(e.op, ast.Or)
+            cur = env
+            out = None
+            for i, sub in enumerate(e.values):
+                if cur is None:
+                    break
+                v = self.ev(sub, cur)
+                last = i == len(e.values) - 1
+                if not last and _scalar(v):
+                    # `a or b` yields a only when it is truthy, `a and b` yields a only when it is falsy
+                    v = frozenset(a for a in v if self.truth(a) in ((True, None) if is_or else (False, None)))
+                    contributes = bool(v)
+                else:
+                    contributes = True
+                if contributes:
+                    out = v if out is None else _join(out, v)
+                if not last:
+                    cur = self.refine(sub, cur, not is_or)
+            return out if out is not None else UNKNOWN
+        if isinstance(e, ast.NamedExpr):
+            v = self.ev(e.value, env)
+            self.bind(env, e.target.id, v)
+            return v
+        if isinstance(e, ast.Tuple):
+            if any(isinstance(x, ast.Starred) for x in e.elts):
+                vals = [self.ev(x.value if isinstance(x, ast.Starred) else x, env) for x in e.elts]
+                return SUB if all(v == SUB if isinstance(x, ast.Starred) else _members_only(v) for x, v in zip(e.elts, vals)) else UNKNOWN
+            return ("tup", tuple(self.ev(x, env) for x in e.elts))
+        if isinstance(e, (ast.List, ast.Set)):
+            vals = [self.ev(x.value if isinstance(x, ast.Starred) else x, env) for x in e.elts]
+            return SUB if all(v == SUB if isinstance(x, ast.Starred) else _members_only(v) for x, v in zip(e.elts, vals)) else UNKNOWN
+        if isinstance(e, (ast.ListComp, ast.SetComp, ast.GeneratorExp, ast.DictComp)):
+            scope = dict(env)
+            for g in e.generators:
+                if g.is_async:
+                    raise _NoProof("async comprehension")
+                itv = self.ev(g.iter, scope)
+                self.assign(g.target, self.element_of(itv), scope)
+                for c in g.ifs:
+                    self.ev(c, scope)
+                    nxt = self.refine(c, scope, True)
+                    if nxt is None:
+                        return SUB  # the filter never holds: the result is empty
+                    scope = nxt
+            if isinstance(e, ast.DictComp):
+                self.ev(e.key, scope)
+                self.ev(e.value, scope)
+                return UNKNOWN
+            return SUB if _members_only(self.ev(e.elt, scope)) else UNKNOWN
+        if isinstance(e, ast.BinOp):
+            l, r = self.ev(e.left, env), self.ev(e.right, env)
+            if isinstance(e.op, (ast.Add, ast.BitOr)) and l == SUB and r == SUB:
+                return SUB
+            if isinstance(e.op, ast.BitAnd) and SUB in (l, r):
+                return SUB
+            if isinstance(e.op, ast.Sub) and l == SUB:
+                return SUB
+            return UNKNOWN
+        if isinstance(e, ast.Call):
+            return self.call(e, env)
+        if isinstance(e, (ast.Await, ast.Yield, ast.YieldFrom)):
+            raise _NoProof("the callback became a coroutine / generator")
+        if isinstance(e, ast.Lambda):
+            if any(isinstance(n, ast.Call) and isinstance(n.func, ast.Attribute) and n.func.attr in ("append", "extend", "insert", "add", "update") for n in ast.walk(e.body)):
+                raise _NoProof("a lambda mutates a container")
+            return UNKNOWN
+        # anything else (comparison, not, f-string, dict display ...): a value that is never accepted as a proven member; the
+        # sub-expressions are still visited so that no call escapes the executor
+        for child in ast.iter_child_nodes(e):
+            if isinstance(child, ast.expr):
+                self.ev(child, env)
+        return UNKNOWN
+
+    def truth(self, atom):
+        if isinstance(atom, tuple) and atom[0] == "c":
+            return bool(atom[1])
+        if atom == NOV:
+            return None
+        return None
+
+    def element_of(self, itv):
+        if itv == SUB:
+            return _A(MEM)
+        if _tup(itv):
+            out = None
+            for x in itv[1]:
+                out = x if out is None else _join(out, x)
+            return out if out is not None else UNKNOWN
+        return UNKNOWN
+
+    def escape(self, e, env, values):
+        """a call of something the executor cannot see into"""
+        if any(_has_sub(v) for v in values):
+            raise _NoProof(f"the offers are handed to {norm(e.func)}, which the path proof cannot follow")
+        self.drop_paths(env)
+
+    def resolve(self, name):
+        if name in self.local_funcs:
+            return self.local_funcs[name]
+        d = self.mod.get(name)
+        return d if isinstance(d, ast.FunctionDef) else None
+
+    def call(self, e, env):
+        f = e.func
+        argv = [self.ev(a.value if isinstance(a, ast.Starred) else a, env) for a in e.args]
+        kwv = {k.arg: self.ev(k.value, env) for k in e.keywords}
+        allv = argv + list(kwv.values())
+        starred = any(isinstance(a, ast.Starred) for a in e.args) or None in kwv
+        if isinstance(f, ast.Name) and f.id not in env:
+            n = f.id
+            target = self.resolve(n)
+            if target is not None:
+                if starred:
+                    self.escape(e, env, allv)
+                    return UNKNOWN
+                return self.summary(target, argv, kwv, env)
+            if n in _SUB_KEEPING and argv and argv[0] == SUB:
+                return SUB
+            if n == "filter" and len(argv) == 2 and argv[1] == SUB:
+                return SUB
+            if n == "next" and argv and argv[0] == SUB:
+                return _join(_A(MEM), argv[1]) if len(argv) > 1 else _A(MEM)  # or StopIteration
+            if n in ("min", "max") and len(argv) == 1 and argv[0] == SUB:
+                return _join(_A(MEM), kwv["default"]) if "default" in kwv else _A(MEM)
+            if n == "cast" and len(argv) == 2:
+                return argv[1]
+            if hasattr(builtins, n):
+                return UNKNOWN  # builtins do not mutate their arguments
+            self.escape(e, env, allv)
+            return UNKNOWN
+        if isinstance(f, ast.Attribute):
+            recv = self.ev(f.value, env)
+            a = f.attr
+            if recv == SUB:
+                if a == "pop":
+                    return _A(MEM)
+                if a == "copy":
+                    return SUB
+                if a in ("index", "count", "sort", "reverse", "remove", "clear", "discard", "isdisjoint", "issubset", "issuperset"):
+                    return UNKNOWN
+                if a in ("intersection", "difference"):
+                    return SUB
+                if a == "union" and all(v == SUB for v in argv):
+                    return SUB
+                if a in ("append", "add") and len(argv) == 1 and _members_only(argv[0]):
+                    return _A(("c", None))
+                if a in ("extend", "update") and len(argv) == 1 and argv[0] == SUB:
+                    return _A(("c", None))
+                if a == "insert" and len(argv) == 2 and _members_only(argv[1]):
+                    return _A(("c", None))
+                raise _NoProof(f"{norm(e)}: a list derived from the offers is changed in a way the path proof cannot follow")
+            if a == "cast" and len(argv) == 2:
+                return argv[1]
+            root = self.root(f.value)
+            if root not in env and self.is_logging(root):
+                return UNKNOWN  # logging neither changes nor keeps its arguments
+            if a in _PURE_METHODS:
+                return UNKNOWN
+            self.escape(e, env, allv)
+            return UNKNOWN
+        self.ev(f, env)
+        self.escape(e, env, allv)
+        return UNKNOWN
+
+    def summary(self, target, argv, kwv, caller_env):
+        """value of a call of a helper of the same module: the join of what it returns on the abstract arguments"""
+        if self.depth >= 4:
+            raise _NoProof(f"helper nesting too deep at {target.name}")
+        a = target.args
+        if a.posonlyargs or len(argv) > len(a.args) and not a.vararg:
+            raise _NoProof(f"call of {target.name} does not fit its signature")
+        env = {}
+        params = [p.arg for p in a.args]
+        for p, v in zip(params, argv):
+            env[p] = v
+        if a.vararg:
+            env[a.vararg.arg] = SUB if all(_members_only(v) for v in argv[len(params):]) else UNKNOWN
+            if any(_has_sub(v) for v in argv[len(params):]):
+                raise _NoProof(f"offers passed through *{a.vararg.arg} of {target.name}")
+        for k, v in kwv.items():
+            if k in params or k in [p.arg for p in a.kwonlyargs]:
+                env[k] = v
+            elif _has_sub(v):
+                raise _NoProof(f"offers passed through **kwargs of {target.name}")
+        defaults = dict(zip(params[len(params) - len(a.defaults):], a.defaults))
+        defaults.update({p.arg: d for p, d in zip(a.kwonlyargs, a.kw_defaults) if d is not None})
+        for p in params + [p.arg for p in a.kwonlyargs]:
+            if p not in env:
+                env[p] = self.ev(defaults[p], {}) if p in defaults else UNKNOWN
+        if a.kwarg:
+            env[a.kwarg.arg] = UNKNOWN
+        self.depth += 1
+        try:
+            outs = self.block(self.body_of(target), env)
+        finally:
+            self.depth -= 1
+        self.drop_paths(caller_env)  # the helper may change objects the caller holds refinements about
+        res = None
+        for o in outs:
+            if o[0] == "ret":
+                v = o[1]
+            elif o[0] == "fall":
+                v = _A(("c", None))
+            else:
+                continue
+            res = v if res is None else _join(res, v)
+        return res if res is not None else UNKNOWN
+
+    @staticmethod
+    def body_of(fn):
+        body = list(fn.body)
+        if body and isinstance(body[0], ast.Expr) and isinstance(body[0].value, ast.Constant) and isinstance(body[0].value.value, str):
+            body = body[1:]
+        return body
+
+    # -- refinement by a condition -----------------------------------------------------------------
+    def refine(self, test, env, truth):
+        """environment on the branch where ``test`` has truth value ``truth``; None when that branch is infeasible"""
+        if isinstance(test, ast.Constant):
+            return dict(env) if bool(test.value) == truth else None
+        if isinstance(test, ast.UnaryOp) and isinstance(test.op, ast.Not):
+            return self.refine(test.operand, env, not truth)
+        if isinstance(test, ast.BoolOp):
+            conj = isinstance(test.op, ast.And)
+            if conj == truth:  # all operands have the value `truth`
+                cur = dict(env)
+                for sub in test.values:
+                    cur = self.refine(sub, cur, truth)
+                    if cur is None:
+                        return None
+                return cur
+            # some operand is the first one with the value `truth`, those before it have the opposite one
+            alts = []
+            prefix = dict(env)
+            for sub in test.values:
+                hit = self.refine(sub, prefix, truth)
+                if hit is not None:
+                    alts.append(hit)
+                prefix = self.refine(sub, prefix, not truth)
+                if prefix is None:
+                    break
+            if not alts:
+                return None
+            out = alts[0]
+            for x in alts[1:]:
+                out = _join_env(out, x)
+            return out
+        if isinstance(test, ast.NamedExpr):
+            return self.refine(test.target, env, truth)
+        if isinstance(test, ast.Compare) and len(test.ops) == 1:
+            op, left, right = test.ops[0], test.left, test.comparators[0]
+            if isinstance(op, (ast.In, ast.NotIn)):
+                positive = isinstance(op, ast.In) == truth
+                k = self.key(left.target if isinstance(left, ast.NamedExpr) else left)
+                if positive and k and self.ev(right, dict(env)) == SUB:
+                    out = dict(env)
+                    out[k] = _A(MEM)
+                    return out
+                return dict(env)
+            if isinstance(op, (ast.Is, ast.IsNot, ast.Eq, ast.NotEq)):
+                equal = isinstance(op, (ast.Is, ast.Eq)) == truth
+                for a, b in ((left, right), (right, left)):
+                    k = self.key(a.target if isinstance(a, ast.NamedExpr) else a)
+                    cv = self.ev(b, dict(env))
+                    if k and _scalar(cv) and len(cv) == 1 and isinstance(next(iter(cv)), tuple):
+                        const = next(iter(cv))[1]
+                        cur = self.ev(a.target if isinstance(a, ast.NamedExpr) else a, dict(env))
+                        if not _scalar(cur):
+                            return dict(env)
+                        new = set()
+                        for atom in cur:
+                            if isinstance(atom, tuple):
+                                if _same_const(atom[1], const) == equal:
+                                    new.add(atom)
+                            elif atom == ANY:
+                                new.add(("c", const) if equal else ANY)
+                            elif atom == MEM:
+                                if not equal or isinstance(const, bytes):
+                                    new.add(MEM)  # an offer is a bytes object: never None / a bool / a str
+                            elif atom == NOV:
+                                if not equal:
+                                    new.add(NOV)
+                        if not new:
+                            return None
+                        out = dict(env)
+                        out[k] = frozenset(new)
+                        return out
+                return dict(env)
+            return dict(env)
+        if isinstance(test, ast.Call) and isinstance(test.func, ast.Name) and test.func.id not in env:
+            n = test.func.id
+            if n == "bool" and len(test.args) == 1 and not test.keywords:
+                return self.refine(test.args[0], env, truth)
+            if n == "any" and truth and len(test.args) == 1 and isinstance(test.args[0], (ast.GeneratorExp, ast.ListComp)):
+                g = test.args[0]
+                if len(g.generators) == 1 and not g.generators[0].ifs and isinstance(g.generators[0].target, ast.Name) and isinstance(g.elt, ast.Compare) and len(g.elt.ops) == 1 \
+                        and isinstance(g.elt.ops[0], ast.Eq) and self.ev(g.generators[0].iter, dict(env)) == SUB:
+                    var = g.generators[0].target.id
+                    l, r = g.elt.left, g.elt.comparators[0]
+                    other = r if isinstance(l, ast.Name) and l.id == var else (l if isinstance(r, ast.Name) and r.id == var else None)
+                    k = self.key(other) if other is not None else None
+                    if k and k != var:
+                        out = dict(env)
+                        out[k] = _A(MEM)
+                        return out
+                return dict(env)
+            target = self.resolve(n)
+            if target is not None and not test.keywords and not any(isinstance(a, ast.Starred) for a in test.args):
+                body = self.body_of(target)
+                a = target.args
+                params = [p.arg for p in a.args]
+                if len(body) == 1 and isinstance(body[0], ast.Return) and body[0].value is not None and len(params) == len(test.args) and not (a.vararg or a.kwarg or a.kwonlyargs or a.posonlyargs) \
+                        and all(self.key(x) or isinstance(x, ast.Constant) for x in test.args):
+                    free = {x.id for x in ast.walk(body[0].value) if isinstance(x, ast.Name)} - set(params)
+                    if not (free & set(env)):
+                        expr = _Subst(dict(zip(params, test.args))).visit(copy.deepcopy(body[0].value))
+                        return self.refine(expr, env, truth)
+            return dict(env)
+        k = self.key(test)
+        if k:
+            cur = self.ev(test, dict(env))
+            if _scalar(cur):
+                new = frozenset(a for a in cur if self.truth(a) in (truth, None))
+                if not new:
+                    return None
+                out = dict(env)
+                out[k] = new
+                return out
+        return dict(env)
+
+    # -- statements ------------------------------------------------------------------------------
+    def assign(self, t, v, env):
+        if isinstance(t, ast.Name):
+            self.bind(env, t.id, v)
+        elif isinstance(t, (ast.Tuple, ast.List)):
+            star = any(isinstance(x, ast.Starred) for x in t.elts)
+            for i, x in enumerate(t.elts):
+                if isinstance(x, ast.Starred):
+                    self.assign(x.value, SUB if v == SUB else UNKNOWN, env)
+                elif _tup(v) and not star and len(v[1]) == len(t.elts):
+                    self.assign(x, v[1][i], env)
+                else:
+                    self.assign(x, _A(MEM) if v == SUB else UNKNOWN, env)
+        elif isinstance(t, (ast.Attribute, ast.Subscript)):
+            recv = self.ev(t.value, env)
+            if isinstance(t, ast.Subscript):
+                self.ev(t.slice, env)
+                if recv == SUB and not (_members_only(v) or (isinstance(t.slice, ast.Slice) and v == SUB)):
+                    raise _NoProof(f"{norm(t)} = ...: an element of a list derived from the offers is replaced")
+            elif _has_sub(v):
+                raise _NoProof(f"the offers are stored in {norm(t)}")
+            self.drop_paths(env)
+            k = self.key(t)
+            if k:
+                env[k] = v
+        else:
+            raise _NoProof(f"assignment target {norm(t)}")
+
+    def block(self, stmts, env):
+        """-> outcomes ('fall', env) | ('ret', value, node, env) | ('break', env) | ('cont', env) | ('raise', env)"""
+        cur = [env]
+        out = []
+        for st in stmts:
+            nxt = []
+            for e in cur:
+                for o in self.stmt(st, dict(e)):
+                    if o[0] == "fall":
+                        nxt.append(o[1])
+                    else:
+                        out.append(o)
+            cur = _dedup(nxt)
+            if not cur:
+                break
+        out.extend(("fall", e) for e in cur)
         return out
 
+    def stmt(self, st, env):
+        self.tick()
+        if isinstance(st, ast.Expr):
+            self.ev(st.value, env)
+            return [("fall", env)]
+        if isinstance(st, (ast.Pass, ast.Import, ast.ImportFrom)):
+            return [("fall", env)]
+        if isinstance(st, ast.Return):
+            return [("ret", self.ev(st.value, env), st, env)]
+        if isinstance(st, ast.Raise):
+            if st.exc is not None:
+                self.ev(st.exc, env)
+            return [("raise", env)]
+        if isinstance(st, ast.Assign):
+            v = self.ev(st.value, env)
+            for t in st.targets:
+                self.assign(t, v, env)
+            return [("fall", env)]
+        if isinstance(st, ast.AnnAssign):
+            if st.value is not None:
+                self.assign(st.target, self.ev(st.value, env), env)
+            return [("fall", env)]
+        if isinstance(st, ast.AugAssign):
+            cur = self.ev(st.target, env)
+            v = self.ev(st.value, env)
+            if cur == SUB:
+                if not (isinstance(st.op, (ast.Add, ast.BitOr, ast.BitAnd, ast.Sub)) and (v == SUB or isinstance(st.op, (ast.BitAnd, ast.Sub)))):
+                    raise _NoProof(f"{norm(st)}: a list derived from the offers is extended in place")
+                new = SUB
+            else:
+                if _has_sub(v) and not isinstance(st.target, ast.Name):
+                    raise _NoProof(f"the offers are stored by {norm(st)}")
+                new = UNKNOWN
+            self.assign(st.target, new, env)
+            return [("fall", env)]
+        if isinstance(st, ast.Delete):
+            for t in st.targets:
+                if isinstance(t, ast.Name):
+                    env.pop(t.id, None)
+                else:
+                    self.ev(t.value, env)
+                    self.drop_paths(env)
+            return [("fall", env)]
+        if isinstance(st, ast.Assert):
+            self.ev(st.test, env)
+            ok = self.refine(st.test, env, True)
+            out = [("raise", env)]
+            if ok is not None:
+                out.append(("fall", ok))
+            return out
+        if isinstance(st, ast.If):
+            self.ev(st.test, env)
+            out = []
+            for truth, body in ((True, st.body), (False, st.orelse)):
+                env2 = self.refine(st.test, env, truth)
+                if env2 is not None:
+                    out.extend(self.block(body, env2))
+            return out
+        if isinstance(st, (ast.For, ast.While)):
+            return self.loop(st, env)
+        if isinstance(st, ast.Break):
+            return [("break", env)]
+        if isinstance(st, ast.Continue):
+            return [("cont", env)]
+        if isinstance(st, ast.Match):
+            return self.match_stmt(st, env)
+        if isinstance(st, ast.Try):
+            return self.try_stmt(st, env)
+        if isinstance(st, ast.FunctionDef):
+            if any(isinstance(n, (ast.Nonlocal, ast.Global)) for n in ast.walk(st)):
+                raise _NoProof(f"nested function {st.name} rebinds outer names")
+            self.local_funcs[st.name] = st
+            env.pop(st.name, None)
+            return [("fall", env)]
+        if isinstance(st, (ast.Global, ast.Nonlocal)):
+            raise _NoProof("global / nonlocal state in the callback")
+        raise _NoProof(f"statement not followed by the path proof: {type(st).__name__}")
 
-def _r18_1(ctx, fn, options):
-    where = lambda n: (T, "alpn_select_callback", n)  # noqa: E731
-    for n in walk_in_order(fn):
-        if isinstance(n, ast.Return) and isinstance(n.value, ast.IfExp):
-            raise AnalysisError("alpn_select_callback: `return a if c else b` is not modelled by R18.1")
-        if isinstance(n, (ast.Assign, ast.AugAssign, ast.AnnAssign, ast.NamedExpr, ast.For)):
-            targets = n.targets if isinstance(n, ast.Assign) else [n.target]
-            for t in targets:
-                if any(isinstance(x, ast.Name) and x.id == options for x in ast.walk(t)):
-                    raise AnalysisError("alpn_select_callback rebinds its offers parameter (not modelled)")
-        if isinstance(n, ast.Call) and attr_chain(n.func).startswith(options + "."):
-            raise AnalysisError(f"alpn_select_callback calls a method on the offers list: {norm(n)} (not modelled)")
-    spec = RetSpec(keep=lambda ev: ev[0] in ("cond", "loop", "assign", "ret"), loops=True, implicit_raises=False)
-    res, eng = traces_of(fn, spec)
-    seen = {}
-    for t, how, st in res:
+    @staticmethod
+    def _assigned_names(stmts):
+        out = set()
+        for s in stmts:
+            for n in ast.walk(s):
+                if isinstance(n, ast.Name) and isinstance(n.ctx, (ast.Store, ast.Del)):
+                    out.add(n.id)
+                elif isinstance(n, (ast.MatchAs, ast.MatchStar)) and n.name:
+                    out.add(n.name)
+                elif isinstance(n, ast.MatchMapping) and n.rest:
+                    out.add(n.rest)
+        return out
+
+    def havoc(self, env, stmts):
+        out = dict(env)
+        for n in self._assigned_names(stmts):
+            self.bind(out, n, UNKNOWN)
+        self.drop_paths(out)
+        return out
+
+    def loop(self, st, env):
+        is_for = isinstance(st, ast.For)
+        itv = self.ev(st.iter, env) if is_for else None
+        head = dict(env)
+        outs = []
+        exit_env = None
+        for rnd in range(10):
+            if rnd == 9:  # no fixpoint within the bound: forget everything the body may change
+                head = self.havoc(head, st.body)
+            if is_for:
+                body_env = dict(head)
+                self.assign(st.target, self.element_of(itv), body_env)
+                exit_env = dict(head)
+            else:
+                probe = dict(head)
+                self.ev(st.test, probe)
+                body_env = self.refine(st.test, probe, True)
+                exit_env = self.refine(st.test, probe, False)
+            outs = self.block(st.body, body_env) if body_env is not None else []
+            new_head = head
+            for o in outs:
+                if o[0] in ("fall", "cont"):
+                    new_head = _join_env(new_head, o[1])
+            if new_head == head:
+                break
+            head = new_head
+        res = []
+        for o in outs:
+            if o[0] == "break":
+                res.append(("fall", o[1]))
+            elif o[0] in ("ret", "raise"):
+                res.append(o)
+        if exit_env is not None:
+            res.extend(self.block(st.orelse, exit_env))
+        return res
+
+    def try_stmt(self, st, env):
+        pre = dict(env)
+        normal = []
+        for o in self.block(st.body, dict(env)):
+            if o[0] == "fall":
+                normal.extend(self.block(st.orelse, o[1]))
+            else:
+                normal.append(o)
+        # an exception may leave the body after any of its statements
+        exc_env = self.havoc(pre, st.body)
+        handled = []
+        for h in st.handlers:
+            henv = dict(exc_env)
+            if h.name:
+                self.bind(henv, h.name, UNKNOWN)
+            handled.extend(self.block(h.body, henv))
+        outs = normal + handled + [("raise", exc_env)]
+        if not st.finalbody:
+            return outs
+        res = []
+        for o in outs:
+            fenv = o[-1]
+            for fo in self.block(st.finalbody, dict(fenv)):
+                if fo[0] == "fall":
+                    res.append(o[:-1] + (fo[1],))
+                else:
+                    res.append(fo)  # return / break / raise in `finally` replaces the pending outcome
+        return res
+
+    # -- match -----------------------------------------------------------------------------------
+    def bind_captures(self, pat, env, v=UNKNOWN):
+        for n in ast.walk(pat):
+            if isinstance(n, (ast.MatchAs, ast.MatchStar)) and n.name:
+                self.bind(env, n.name, v)
+            elif isinstance(n, ast.MatchMapping) and n.rest:
+                self.bind(env, n.rest, UNKNOWN)
+
+    def match_const(self, const, val, sexpr, env):
+        """-> ([environment if matched], may the pattern fail?)"""
+        if not _scalar(val):
+            return [dict(env)], True
+        new = set()
+        for atom in val:
+            if isinstance(atom, tuple):
+                if _same_const(atom[1], const):
+                    new.add(atom)
+            elif atom == ANY:
+                new.add(("c", const))
+            elif atom == MEM and isinstance(const, bytes):
+                new.add(MEM)
+        if not new:
+            return [], True
+        out = dict(env)
+        k = self.key(sexpr) if sexpr is not None else None
+        if k:
+            out[k] = frozenset(new)
+        return [out], val != _A(("c", const))
+
+    def match_pat(self, pat, val, sexpr, env):
+        """-> (environments in which the pattern matched, may it fail to match?)"""
+        if isinstance(pat, ast.MatchAs):
+            if pat.pattern is None:
+                out = dict(env)
+                if pat.name:
+                    self.bind(out, pat.name, val)
+                return [out], False
+            ms, cf = self.match_pat(pat.pattern, val, sexpr, env)
+            for m in ms:
+                if pat.name:
+                    k = self.key(sexpr) if sexpr is not None else None
+                    self.bind(m, pat.name, m.get(k, val) if k else val)
+            return ms, cf
+        if isinstance(pat, ast.MatchSingleton):
+            return self.match_const(pat.value, val, sexpr, env)
+        if isinstance(pat, ast.MatchValue):
+            cv = self.ev(pat.value, dict(env))
+            if _scalar(cv) and len(cv) == 1 and isinstance(next(iter(cv)), tuple):
+                return self.match_const(next(iter(cv))[1], val, sexpr, env)
+            return [dict(env)], True
+        if isinstance(pat, ast.MatchOr):
+            ms, fails = [], []
+            for p in pat.patterns:
+                m, cf = self.match_pat(p, val, sexpr, env)
+                ms.extend(m)
+                fails.append(cf)
+            return ms, all(fails)
+        if isinstance(pat, ast.MatchSequence):
+            if _tup(val) and not any(isinstance(p, ast.MatchStar) for p in pat.patterns):
+                if len(val[1]) != len(pat.patterns):
+                    return [], True
+                exprs = sexpr.elts if isinstance(sexpr, ast.Tuple) and len(sexpr.elts) == len(pat.patterns) else [None] * len(pat.patterns)
+                envs, cf = [dict(env)], False
+                for p, item, sx in zip(pat.patterns, val[1], exprs):
+                    nxt = []
+                    for e2 in envs:
+                        m, c = self.match_pat(p, item, sx, e2)
+                        nxt.extend(m)
+                        cf = cf or c
+                    envs = nxt
+                return envs, cf
+            out = dict(env)
+            if val == SUB:
+                for p in pat.patterns:
+                    if isinstance(p, ast.MatchStar):
+                        if p.name:
+                            self.bind(out, p.name, SUB)
+                    elif isinstance(p, ast.MatchAs) and p.pattern is None:
+                        if p.name:
+                            self.bind(out, p.name, _A(MEM))
+                    else:
+                        self.bind_captures(p, out)
+                return [out], True
+            self.bind_captures(pat, out)
+            return [out], True
+        out = dict(env)
+        self.bind_captures(pat, out)
+        return [out], True
+
+    def match_stmt(self, st, env):
+        val = self.ev(st.subject, env)
+        res = []
+        for case in st.cases:
+            ms, can_fail = self.match_pat(case.pattern, val, st.subject, env)
+            for m in ms:
+                if case.guard is not None:
+                    self.ev(case.guard, m)
+                    g = self.refine(case.guard, m, True)
+                    if self.refine(case.guard, m, False) is not None:
+                        can_fail = True
+                    if g is None:
+                        continue
+                    m = g
+                res.extend(self.block(case.body, m))
+            if not can_fail:
+                return res
+        res.append(("fall", env))  # no case matched
+        return res
+
+
+def _value_text(v):
+    if not _scalar(v):
+        return "a container / unknown value"
+    names = {MEM: "an offered protocol", NOV: "NO_OVERLAPPING_PROTOCOLS", ANY: "a value of unknown origin"}
+    return " or ".join(sorted(names.get(a, f"the constant {a[1]!r}" if isinstance(a, tuple) else str(a)) for a in v))
+
+
+def _path_proof(ctx, mod, fn, options):
+    """-> ({id(site): [site node, proven on every path, set of alternatives]}, reason the proof was abandoned or '')"""
+    p = _Prov(mod, fn)
+    try:
+        outs = p.block(p.body_of(fn), {options: SUB})
+    except _NoProof as e:
+        return None, str(e)
+    except RecursionError:
+        return None, "recursion in the callback's helpers"
+    sites = {}
+    for o in outs:
         ctx.paths += 1
-        if how != "return":
+        if o[0] == "ret":
+            node, val = o[2], o[1]
+        elif o[0] == "fall":
+            node, val = fn, _A(("c", None))
+        else:
             continue
-        rets = [e for e in t if e[0] == "ret"]
-        if not rets:
-            ctx.fail("R18.1", where(fn), "implicit return None", "a path falls off the end of the callback: the answer is neither an offered protocol nor NO_OVERLAPPING_PROTOCOLS")
+        ok = _scalar(val) and bool(val) and val <= {MEM, NOV}
+        rec = sites.setdefault(id(node), [node, True, set()])
+        rec[1] = rec[1] and ok
+        rec[2] |= set(val) if _scalar(val) else {ANY}
+    return sites, ""
+
+
+def _site_text(fn, node):
+    if node is fn:
+        return "implicit return None"
+    return f"return {norm(node.value)}" if node.value is not None else "return None"
+
+
+def _r18_1(ctx, fn, options, table):
+    where = lambda n: (T, "alpn_select_callback", n)  # noqa: E731
+    mod = ctx.model.module(T)
+    sites, abandoned = _path_proof(ctx, mod, fn, options)
+    own = _own_returns(fn)
+    ctx.require(own, "alpn_select_callback: no return found")
+    if sites is None:
+        sites = {id(n): ([n, True, {NOV}] if n.value is not None and attr_chain(n.value).split(".")[-1] == "NO_OVERLAPPING_PROTOCOLS" else [n, False, {ANY}]) for n in own}
+        ctx.note(f"R18.1: path proof not applicable ({abandoned}); every return is decided by the exhaustive interpretation of the callback instead")
+    # what the exhaustive interpretation (the runs of R18.2's domain) says about each return site
+    by_site = {}
+    for rec in table["records"]:
+        node = rec["ret"] if rec["kind"] == "value" else None
+        if rec["kind"] == "raise":
             continue
-        v = rets[-1][1]
-        key = id(v)
-        ok, why = False, ""
-        if v is not None and attr_chain(v).split(".")[-1] == "NO_OVERLAPPING_PROTOCOLS":
-            ok, why = True, "none"
-        elif isinstance(v, ast.Name):
-            x = v.id
-            i = max(k for k, e in enumerate(t) if e[0] == "ret")
-            for e in reversed(t[:i]):
-                if e[0] == "assign" and e[1] == x:
-                    break
-                if e[0] == "loop" and isinstance(e[2].target, ast.Name) and e[2].target.id == x:
-                    if e[1] and isinstance(e[2].iter, ast.Name) and e[2].iter.id == options:
-                        ok, why = True, f"loop variable of `for {x} in {options}`"
-                    break
-                if e[0] == "cond":
-                    c = e[3]
-                    if (isinstance(c, ast.Compare) and len(c.ops) == 1 and isinstance(c.left, ast.Name) and c.left.id == x
-                            and isinstance(c.comparators[0], ast.Name) and c.comparators[0].id == options):
-                        if (isinstance(c.ops[0], ast.In) and e[2]) or (isinstance(c.ops[0], ast.NotIn) and not e[2]):
-                            ok, why = True, f"`{x} in {options}` holds on the path"
-                            break
-        prev = seen.get(key)
-        seen[key] = (v, (prev[1] if prev else True) and ok, why or (prev[2] if prev else ""))
-    ctx.require(seen, "alpn_select_callback: no return found")
-    for v, ok, why in seen.values():
-        ctx.check(ok, "R18.1", where(v), f"return {norm(v) if v is not None else 'None'}",
-                  "the returned value is not proven to be one of the client's offers on every path reaching this return (no dominating `in options` test / not the loop variable over options)",
-                  desc=f"return {norm(v) if v is not None else 'None'}: {why}")
-    ctx.expect_instances("R18.1", 4)  # 7 returns today; fewer than 4 means the callback changed shape entirely
+        site = node if node is not None else fn
+        ent = by_site.setdefault(id(site), [site, 0, []])
+        ent[1] += 1
+        if rec["got"] != NONE and rec["got"] not in rec["options"]:
+            ent[2].append(rec)
+    for sid, ent in by_site.items():
+        if ent[2] and sid not in sites:
+            sites[sid] = [ent[0], False, {ANY}]  # reached concretely although the abstract execution held it unreachable: decide it concretely
+    for sid, (node, proven, alts) in sites.items():
+        text = _site_text(fn, node)
+        if proven:
+            ctx.ok("R18.1", f"{text}: {_value_text(frozenset(alts))} on every path (for all inputs)")
+            continue
+        runs = by_site.get(sid, [node, 0, []])
+        if runs[2]:
+            ex = runs[2][0]
+            show = {k: ex[k] for k in ("options", "client_alpn", "server_alpn", "http2", "got")}
+            ctx.fail("R18.1", where(node), text,
+                     f"the returned value is not one of the client's offers: it is {_value_text(frozenset(alts))} on some path, and e.g. for {show} the callback answers {ex['got']!r} "
+                     f"({len(runs[2])} of {runs[1]} interpreted cases reaching this return)", examples=[{k: r[k] for k in ('options', 'client_alpn', 'server_alpn', 'http2', 'got')} for r in runs[2][:3]])
+        elif node is fn and runs[1] == 0:
+            ctx.ok("R18.1", f"{text}: not reached by any of the {table['n']} interpreted cases (the path proof cannot exclude it syntactically)")
+        elif runs[1] == 0:
+            raise AnalysisError(f"alpn_select_callback: `{text}` is neither proven an offer on every path ({_value_text(frozenset(alts))}) nor reached by any interpreted case: not decided")
+        else:
+            ctx.ok("R18.1", f"{text}: path proof not applicable ({_value_text(frozenset(alts))}); decided by exhaustive interpretation: an offered protocol or none in all {runs[1]} "
+                            f"of {table['n']} cases (offer lists up to length {table['maxlen']}) that reach it")
+    ctx.expect_instances("R18.1", 1)
 
 
 # ---- R18.2 ---------------------------------------------------------------------------------------
 
 
-def _interp(ctx, fn, conn_param, http_alpns, http1_alpns):
-    CONN = object()
-    holder = {}
-
-    def atom(node, env):
-        if isinstance(node, ast.Call) and isinstance(node.func, ast.Attribute) and node.func.attr == "get_app_data" and not node.args:
-            if isinstance(node.func.value, ast.Name) and env.get(node.func.value.id) is CONN:
-                return holder["app_data"]
-        if isinstance(node, ast.Attribute):
-            ch = attr_chain(node)
-            if ch.split(".")[-1] == "NO_OVERLAPPING_PROTOCOLS":
-                return NONE
-            if ch == "proxy_tls.HTTP_ALPNS":
-                return http_alpns
-            if ch == "proxy_tls.HTTP1_ALPNS":
-                return http1_alpns
-            if ch == "proxy_tls.HTTP2_ALPN":
-                return H2
-            if ch == "proxy_tls.HTTP3_ALPN":
-                return H3
-        raise NotAnAtom
-
-    mi = MiniInterp(atom=atom, what="alpn_select_callback")
-
-    def run(options, client_alpn, server_alpn, http2):
-        holder["app_data"] = {"client_alpn": client_alpn, "server_alpn": server_alpn, "http2": http2}
-        return mi.run(fn, {conn_param: CONN, fn.args.args[1].arg: list(options)})
-
-    return run
+def _callback_constants(ctx, fn):
+    """bytes constants the callback (or a helper of its module that it names) compares against: they join the protocol-class domain"""
+    mod = ctx.model.module(T)
+    seen, todo, out = set(), [fn], []
+    while todo:
+        f = todo.pop()
+        if id(f) in seen:
+            continue
+        seen.add(id(f))
+        for n in ast.walk(f):
+            if isinstance(n, ast.Constant) and isinstance(n.value, bytes) and n.value and n.value not in CLASSES and n.value not in out:
+                out.append(n.value)
+            if isinstance(n, ast.Name):
+                d = mod.get(n.id)
+                if isinstance(d, ast.FunctionDef):
+                    todo.append(d)
+                elif len(seen) < 20:
+                    for v in mod.assigns(n.id):
+                        todo.append(v)
+    ctx.require(len(out) <= 4, f"alpn_select_callback mentions {len(out)} protocol constants outside the modelled classes: {out} (domain too large)")
+    return tuple(out)
 
 
 def expected(options, client_alpn, server_alpn, http2, http_alpns, http1_alpns):
@@ -174,47 +1180,105 @@ def expected(options, client_alpn, server_alpn, http2, http_alpns, http1_alpns):
     return ({first} if first is not None else {NONE}), "upstream unknown"
 
 
-def _r18_2(ctx, fn):
+def _extra_appdata_fields(ctx):
+    """keys of the app data stored by tls_start_client beyond the three the property speaks about (informational fields)"""
+    return [k for k in _appdata_fields(ctx.func(T, "TlsConfig.tls_start_client")) if k not in ("client_alpn", "server_alpn", "http2")]
+
+
+def _run_table(ctx, fn):
+    """Interpret the callback on the whole domain once; R18.1 (fallback) and R18.2 both read the records."""
     m = ctx.model
     mod = m.module(T)
-    ctx.require(mod.imports.get("proxy_tls") == "mitmproxy.proxy.layers.tls", "tlsconfig no longer imports mitmproxy.proxy.layers.tls as proxy_tls")
     http1 = module_const(m, PT, "HTTP1_ALPNS")
     http = module_const(m, PT, "HTTP_ALPNS")
     ctx.require(isinstance(http1, tuple) and isinstance(http, tuple) and all(isinstance(x, bytes) for x in http1 + http), "HTTP_ALPNS / HTTP1_ALPNS are not tuples of bytes")
+    extra_consts = _callback_constants(ctx, fn)
+    extra_consts += tuple(x for x in dict.fromkeys(http + http1) if x and x not in CLASSES and x not in extra_consts)
+    ctx.require(len(extra_consts) <= 5, f"{len(extra_consts)} protocol constants outside the modelled classes: {list(extra_consts)} (domain too large)")
+    classes = CLASSES + extra_consts
+    if extra_consts:
+        ctx.note(f"R18.2: protocol constants named by the callback added to the class domain: {list(extra_consts)}")
+    extras = _extra_appdata_fields(ctx)
+    variants = [{}]
+    if extras:
+        variants = [{k: True for k in extras}, {k: False for k in extras}, {}]
+        ctx.note(f"R18.2: AppData carries additional fields {extras}; the table is decided for each of them true / false / absent (offer lists up to length {max(1, (3 if ctx.tier == 'thorough' else 2) - 1)} for the latter two) and must not depend on them")
+    own = _own_returns(fn)
+    f = Func(mod, fn)
+    interps = [_Sem(m, True, own)]
+    maxlen = 3 if ctx.tier == "thorough" else 2
+    records = []
+
+    def run(it, options, ca, sa, http2, extra):
+        data = {"client_alpn": ca, "server_alpn": sa, "http2": http2, **extra}
+        conn = Rec("Connection", get_app_data=lambda: data)
+        it.steps = 0
+        it.last_ret = None
+        try:
+            return "value", it.apply(f, [conn, list(options)], {}, 0), it.last_ret
+        except Raised as r:
+            return "raise", f"<raises {r.name}>", None
+
+    def sweep(it, vs, upto):
+        for n in range(0, upto + 1):
+            for options in itertools.permutations(classes, n):
+                not_offered = [c for c in classes if c not in options]
+                clients = [None, b""] + list(options) + not_offered[:1] + [c for c in not_offered[1:] if c in extra_consts]
+                servers = [None, b""] + list(options) + not_offered
+                for ca in clients:
+                    for sa in servers:
+                        for http2 in (True, False):
+                            for vi, extra in enumerate(vs):
+                                kind, got, ret = run(it, options, ca, sa, http2, extra)
+                                if kind == "raise" and got == "<raises KeyError>" and not extra and extras:
+                                    continue  # a required additional field is absent: not a world
+                                records.append({"options": list(options), "client_alpn": ca, "server_alpn": sa, "http2": http2, "extra": extra, "kind": kind, "got": got, "ret": ret, "first": it is interps[0] and extra is variants[0]})
+
+    # the full domain with the first variant; the variants that must make no difference (additional informational AppData fields,
+    # logging switched off) on offer lists one element shorter
+    sweep(interps[0], variants[:1], maxlen)
+    if variants[1:]:
+        sweep(interps[0], variants[1:], max(1, maxlen - 1))
+    if interps[0].logger.asked:
+        # the callback asks whether logging is enabled: its answer must not depend on the logging configuration
+        interps.append(_Sem(m, False, own))
+        sweep(interps[1], variants[:1], max(1, maxlen - 1))
+        ctx.note("R18.2: the callback consults the logging configuration (isEnabledFor); the table is decided with logging enabled and disabled")
+    return {"records": records, "n": len(records), "maxlen": maxlen, "http": http, "http1": http1}
+
+
+def _r18_2(ctx, fn, table):
+    m = ctx.model
+    http, http1 = table["http"], table["http1"]
     ctx.check(H2 not in http1 and H3 not in http1, "R18.2", (PT, "<module>", m.const(PT, "HTTP1_ALPNS")), "HTTP1_ALPNS contains h2/h3",
               "with http2 disabled the generic selection may pick HTTP/2 or HTTP/3", desc=f"HTTP1_ALPNS={http1!r} has no h2/h3")
-    params = [a.arg for a in fn.args.args]
-    ctx.require(len(params) == 2, "alpn_select_callback signature changed")
-    run = _interp(ctx, fn, params[0], http, http1)
-    maxlen = 3 if ctx.tier == "thorough" else 2
     rows = {}
     bad = {}
-    for n in range(0, maxlen + 1):
-        for options in itertools.permutations(CLASSES, n):
-            not_offered = [c for c in CLASSES if c not in options]
-            clients = [None, b""] + list(options) + not_offered[:1]
-            servers = [None, b""] + list(options) + not_offered
-            for ca in clients:
-                for sa in servers:
-                    for http2 in (True, False):
-                        got = run(options, ca, sa, http2)
-                        want, row = expected(options, ca, sa, http2, http, http1)
-                        ctx.cells += 1
-                        rows[row] = rows.get(row, 0) + 1
-                        problems = []
-                        if got != NONE and got not in options:
-                            problems.append("selected a protocol the client did not offer")
-                        if got not in want:
-                            problems.append(f"{row}: expected {sorted(map(repr, want))}")
-                        if not http2 and ca is None and not sa and got == H2:
-                            problems.append("h2 selected although http2 is disabled")
-                        if problems:
-                            b = bad.setdefault(row, [])
-                            if len(b) < 3:
-                                b.append({"options": list(options), "client_alpn": ca, "server_alpn": sa, "http2": http2, "got": got, "problems": problems})
-                            bad[row + "#n"] = bad.get(row + "#n", 0) + 1
-                        elif len(ctx.samples) < 6 and n == 2 and ca is None and sa in (H2, None) and options[0] == H11:
-                            ctx.sample({"rule": "R18.2", "options": [o.decode() for o in options], "client_alpn": ca, "server_alpn": sa and sa.decode(), "http2": http2, "selected": got if got == NONE else got.decode()})
+    for rec in table["records"]:
+        options, ca, sa, http2, got = tuple(rec["options"]), rec["client_alpn"], rec["server_alpn"], rec["http2"], rec["got"]
+        want, row = expected(options, ca, sa, http2, http, http1)
+        ctx.cells += 1
+        rows[row] = rows.get(row, 0) + 1
+        problems = []
+        if rec["kind"] == "raise":
+            problems.append(f"the callback {got[1:-1]} instead of answering")
+        else:
+            if got != NONE and got not in options:
+                problems.append("selected a protocol the client did not offer")
+            if got not in want:
+                problems.append(f"{row}: expected {sorted(map(repr, want))}")
+            if not http2 and ca is None and not sa and got == H2:
+                problems.append("h2 selected although http2 is disabled")
+        if problems:
+            b = bad.setdefault(row, [])
+            if len(b) < 3:
+                ex = {"options": list(options), "client_alpn": ca, "server_alpn": sa, "http2": http2, "got": got, "problems": problems}
+                if rec["extra"]:
+                    ex["additional AppData fields"] = rec["extra"]
+                b.append(ex)
+            bad[row + "#n"] = bad.get(row + "#n", 0) + 1
+        elif rec["first"] and len(ctx.samples) < 6 and len(options) == 2 and ca is None and sa in (H2, None) and options[0] == H11:
+            ctx.sample({"rule": "R18.2", "options": [o.decode() for o in options], "client_alpn": ca, "server_alpn": sa and sa.decode(), "http2": http2, "selected": got if got == NONE else got.decode()})
     ctx.require(set(rows) == {"client override", "upstream known", "upstream negotiated none", "upstream unknown"}, f"table rows not all exercised: {rows}")
     for row in sorted(rows):
         ex = bad.get(row)
@@ -227,26 +1291,48 @@ def _r18_2(ctx, fn):
 
 
 class AppDataSpec(FlowSpec):
+    """events: ('appdata', ((field, value), ...), receiver) for every ``<receiver>.set_app_data(<AppData>)``, where the argument is an
+    ``AppData(...)`` / ``dict(...)`` call with keywords or a dict display with constant keys - written in place or bound to a local first;
+    ('conn', target) when a new ``SSL.Connection`` is stored.  Field values and receivers are resolved through local aliases."""
+
+    def value(self, expr, st, depth):
+        if isinstance(expr, ast.Call) and call_name(expr).split(".")[-1] in ("AppData", "dict") and (expr.keywords or call_name(expr).split(".")[-1] == "AppData"):
+            if expr.args or any(k.arg is None for k in expr.keywords):
+                raise AnalysisError(f"AppData built with positional/starred arguments: {norm(expr)} (not modelled)")
+            return ("appdata", tuple(sorted((k.arg, self._deep(k.value, st)) for k in expr.keywords)))
+        if isinstance(expr, ast.Dict) and expr.keys and all(isinstance(k, ast.Constant) and isinstance(k.value, str) for k in expr.keys):
+            return ("appdata", tuple(sorted((k.value, self._deep(v, st)) for k, v in zip(expr.keys, expr.values))))
+        if isinstance(expr, ast.Call) and call_name(expr).split(".")[-1] == "Connection":
+            return ("newconn", expr.lineno, expr.col_offset)
+        return super().value(expr, st, depth)
+
     def events(self, node, st):
         out = list(super().events(node, st))
-        for n in ast.walk(node):
-            if isinstance(n, ast.Call) and call_name(n) == "AppData":
-                if n.args or any(k.arg is None for k in n.keywords):
-                    raise AnalysisError(f"AppData built with positional/starred arguments: {norm(n)} (not modelled)")
-                vals = tuple(sorted((k.arg, self._deep(k.value, st)) for k in n.keywords))
-                par = getattr(n, "_parent", None)
-                sink = call_name(par) if isinstance(par, ast.Call) else ""
-                out.append(("appdata", vals, sink))
+        for n in eval_order(node):
+            if isinstance(n, ast.Call) and isinstance(n.func, ast.Attribute) and n.func.attr == "set_app_data":
+                if len(n.args) != 1 or n.keywords:
+                    raise AnalysisError(f"set_app_data call not understood: {norm(n)}")
+                v = self.value(n.args[0], st, 0)
+                if not (isinstance(v, tuple) and v and v[0] == "appdata"):
+                    raise AnalysisError(f"tls_start_client: the argument of {norm(n.func)}(...) is not an AppData(...) / dict the rule can read: {norm(n.args[0])}")
+                out.append(("appdata", v[1], self._deep(n.func.value, st), attr_chain(n.func.value)))
         return out
 
     def _deep(self, expr, st):
-        """value of expr with locals substituted: R('a.b.c') where the head local is itself a reference"""
+        """value of expr with locals substituted: R('a.b.c') where the head local is itself a reference (followed transitively)"""
         v = self.value(expr, st, 0)
-        if v[0] == "r":
+        for _ in range(6):
+            if not (isinstance(v, tuple) and v and v[0] == "r"):
+                break
+            if st.has(v[1]):
+                v = st.get(v[1])
+                continue
             head, _, rest = v[1].partition(".")
             hv = st.get(f"0:{head}")
-            if hv[0] == "r" and rest:
-                return R(hv[1] + "." + rest)
+            if isinstance(hv, tuple) and hv and hv[0] == "r" and rest:
+                v = R(hv[1] + "." + rest)
+            else:
+                break
         return v
 
 
@@ -299,12 +1385,103 @@ def _explicit_modes(ctx):
     return sorted(out)
 
 
+def _callee(m, rel, cls, call):
+    """FunctionDef of ``self.helper(...)`` / ``Class.helper(...)`` / ``module_function(...)`` called from a method of ``cls`` in ``rel``, else None"""
+    f = call.func
+    mod = m.module(rel)
+    if isinstance(f, ast.Attribute) and isinstance(f.value, ast.Name) and f.value.id in ("self", "cls", cls):
+        r = m.method(rel, cls, f.attr)
+        return r[1] if r is not None else None
+    if isinstance(f, ast.Name):
+        d = mod.get(f.id)
+        return d if isinstance(d, ast.FunctionDef) else None
+    return None
+
+
+def _reachable(m, rel, cls, fn, depth=3):
+    """fn and the helpers (methods of its class, functions of its module) it calls, transitively up to ``depth``"""
+    out, todo = [fn], [(fn, 0)]
+    while todo:
+        f, d = todo.pop()
+        if d >= depth:
+            continue
+        for c in calls_in(f):
+            g = _callee(m, rel, cls, c)
+            if g is not None and all(g is not x for x in out):
+                out.append(g)
+                todo.append((g, d + 1))
+    return out
+
+
+def _stores_attr(m, rel, cls, node, attr):
+    """does executing ``node`` (possibly) assign ``<something>.attr`` - in place or in a helper it calls?"""
+    fns = [node]
+    for c in (n for n in ast.walk(node) if isinstance(n, ast.Call)):
+        g = _callee(m, rel, cls, c)
+        if g is not None:
+            fns.extend(_reachable(m, rel, cls, g, depth=2))
+    return any(isinstance(n, ast.Attribute) and n.attr == attr and isinstance(n.ctx, ast.Store) for f in fns for n in ast.walk(f))
+
+
+def _slice_for(fn, wanted):
+    """top-level statements of ``fn`` for which ``wanted(stmt)`` holds plus the statements that (transitively) bind the locals they read, in source order"""
+    params = {a.arg for a in fn.args.args}
+
+    def targets(st):
+        out = set()
+        for n in ast.walk(st):
+            if isinstance(n, ast.Name) and isinstance(n.ctx, ast.Store):
+                out.add(n.id)
+        return out
+
+    chosen = [st for st in fn.body if wanted(st)]
+    need = {n.id for st in chosen for n in ast.walk(st) if isinstance(n, ast.Name)} - params
+    last = max((st.lineno for st in chosen), default=0)
+    changed = True
+    while changed:
+        changed = False
+        for st in fn.body:
+            if any(st is c for c in chosen) or st.lineno > last or not (targets(st) & need):
+                continue
+            if not isinstance(st, (ast.Assign, ast.AnnAssign, ast.If, ast.Match, ast.Expr, ast.For, ast.Try)):
+                raise AnalysisError(f"{fn.name}: a local needed by the rule is bound by a {type(st).__name__} statement (not modelled)")
+            chosen.append(st)
+            need |= {n.id for n in ast.walk(st) if isinstance(n, ast.Name)} - params
+            changed = True
+    chosen.sort(key=lambda st: st.lineno)
+    return chosen
+
+
+def _appdata_fields(tsc):
+    """{field: value expression} of the app data tls_start_client stores with ``set_app_data``: an ``AppData(...)`` / ``dict(...)`` call with
+    keywords or a dict display with constant keys, written in place or bound to a local (assigned once) first."""
+    calls = [n for n in ast.walk(tsc) if isinstance(n, ast.Call) and isinstance(n.func, ast.Attribute) and n.func.attr == "set_app_data" and len(n.args) == 1]
+    if not calls:
+        raise AnalysisError("tls_start_client no longer stores app data with set_app_data(...)")
+    out = None
+    for c in calls:
+        arg = c.args[0]
+        if isinstance(arg, ast.Name):
+            defs = [n for n in ast.walk(tsc) if isinstance(n, (ast.Assign, ast.AnnAssign)) and n.value is not None
+                    and any(isinstance(t, ast.Name) and t.id == arg.id for t in (n.targets if isinstance(n, ast.Assign) else [n.target]))]
+            if len(defs) != 1:
+                raise AnalysisError(f"tls_start_client: the app data local `{arg.id}` is assigned {len(defs)} times (not modelled)")
+            arg = defs[0].value
+        if isinstance(arg, ast.Call) and call_name(arg).split(".")[-1] in ("AppData", "dict") and not arg.args and all(k.arg for k in arg.keywords):
+            fields = {k.arg: k.value for k in arg.keywords}
+        elif isinstance(arg, ast.Dict) and all(isinstance(k, ast.Constant) and isinstance(k.value, str) for k in arg.keys):
+            fields = {k.value: v for k, v in zip(arg.keys, arg.values)}
+        else:
+            raise AnalysisError(f"tls_start_client: the argument of set_app_data(...) is not an AppData(...) / dict the rule can read: {norm(arg)}")
+        if out is not None and {k: norm(v) for k, v in out.items()} != {k: norm(v) for k, v in fields.items()}:
+            raise AnalysisError("tls_start_client stores differently built app data at several places (not modelled)")
+        out = fields
+    return out
+
+
 def _client_alpn_slice(tsc):
-    """Statements of tls_start_client that (transitively) define the `client_alpn=` argument of AppData(...), in source order."""
-    call = next((n for n in ast.walk(tsc) if isinstance(n, ast.Call) and call_name(n) == "AppData"), None)
-    if call is None:
-        raise AnalysisError("tls_start_client no longer builds AppData(...)")
-    kw = {k.arg: k.value for k in call.keywords}
+    """Statements of tls_start_client that (transitively) define the `client_alpn` field of the stored app data, in source order."""
+    kw = _appdata_fields(tsc)
     if "client_alpn" not in kw:
         raise AnalysisError("AppData(...) without client_alpn=")
     params = {a.arg for a in tsc.args.args}
@@ -329,7 +1506,7 @@ def _client_alpn_slice(tsc):
         for st in tsc.body:
             if st in chosen or not (targets(st) & need):
                 continue
-            if not isinstance(st, (ast.Assign, ast.AnnAssign, ast.If)):
+            if not isinstance(st, (ast.Assign, ast.AnnAssign, ast.If, ast.Match, ast.Expr, ast.For, ast.Try)):
                 raise AnalysisError(f"tls_start_client: client_alpn defined by a {type(st).__name__} statement (not modelled)")
             chosen.append(st)
             need |= {n.id for n in ast.walk(st) if isinstance(n, ast.Name)} - params
@@ -338,48 +1515,8 @@ def _client_alpn_slice(tsc):
     return chosen, kw["client_alpn"]
 
 
-def _r18_3(ctx):
-    m = ctx.model
-    tsc = ctx.func(T, "TlsConfig.tls_start_client")
-    # isinstance(x, modes.HttpProxy) is modelled by class-name equality: HttpProxy must have no subclass in its module
-    MODES = "mitmproxy/proxy/layers/modes.py"
-    m.cls(MODES, "HttpProxy")
-    subs = [q for q, d in m.module(MODES).defs().items() if isinstance(d, ast.ClassDef) and any(last_attr(b) == "HttpProxy" for b in d.bases)]
-    ctx.require(not subs, f"HttpProxy has subclasses {subs}: the sample layer stacks of R18.3 must be extended")
-    ctx.assume("isinstance(layer, modes.HttpProxy) holds exactly for HttpProxy itself (no subclass in proxy/layers/modes.py)")
-    SSLCONN = "tls_start.ssl_conn is not None"
-    spec = AppDataSpec(keep=lambda ev: (ev[0] == "cond" and ev[1] == SSLCONN) or ev[0] == "appdata", implicit_raises=False)
-    res, eng = traces_of(tsc, spec)
-    term = [(t, how, st) for t, how, st in res if how == "return"]
-    withdata = [t for t, how, st in term if any(e[0] == "appdata" for e in t)]
-    ctx.require(withdata, "tls_start_client no longer builds AppData(...)")
-    ctx.paths += len(term)
-    where = (T, "TlsConfig.tls_start_client", tsc)
-    # every path that creates the connection stores exactly one AppData on it
-    creates = lambda t: any(e[0] == "cond" and e[1] == "tls_start.ssl_conn is not None" and not e[2] for e in t)  # noqa: E731
-    ctx.require(any(creates(t) for t, _, _ in term), "tls_start_client: the `tls_start.ssl_conn is not None` early return changed shape")
-    bad_store = [t for t, _, _ in term if creates(t) and ([e for e in t if e[0] == "appdata"].__len__() != 1 or not any(e[0] == "appdata" and e[2].endswith("ssl_conn.set_app_data") for e in t))]
-    ctx.check(not bad_store, "R18.3", where, "tls_start.ssl_conn.set_app_data(AppData(...)) exactly once",
-              f"{len(bad_store)} path(s) create the client TLS connection without storing the ALPN app data on it: the callback would read stale/no data", desc="AppData stored on ssl_conn on every creating path")
-    # values
-    bad = {"server_alpn": 0, "http2": 0}
-    for t in withdata:
-        vals = dict(next(e for e in t if e[0] == "appdata")[1])
-        if set(vals) != {"client_alpn", "server_alpn", "http2"}:
-            raise AnalysisError(f"AppData fields changed: {sorted(vals)}")
-        if vals["server_alpn"] != R("tls_start.context.server.alpn"):
-            bad["server_alpn"] += 1
-        if vals["http2"] != R("ctx.options.http2"):
-            bad["http2"] += 1
-    ctx.check(bad["server_alpn"] == 0, "R18.3", where, "server_alpn=server.alpn", "the upstream protocol given to the callback is not tls_start.context.server.alpn", desc="server_alpn = tls_start.context.server.alpn")
-    ctx.check(bad["http2"] == 0, "R18.3", where, "http2=ctx.options.http2", "the http2 flag given to the callback is not the http2 option", desc="http2 = ctx.options.http2")
-    # client_alpn per world: the statements defining client_alpn are interpreted (pyint) on layer stacks read from next_layer.py
-    from ..pyint import Interp
-    from ..pyint import Raised
-    from ..pyint import Rec
-
-    stmts, expr = _client_alpn_slice(tsc)
-    ctx.require(any("layers" == getattr(n, "attr", None) for st in stmts for n in ast.walk(st)), "tls_start_client: client_alpn no longer depends on context.layers (secure-web-proxy rule changed shape)")
+def _worlds(ctx):
+    """[(layer stack below which tls_start_client runs, is it the outer connection of a secure web proxy?)] - read from next_layer.py"""
     inner_stacks = _explicit_proxy_stacks(ctx)
     modes_explicit = _explicit_modes(ctx)
     worlds = []
@@ -394,146 +1531,257 @@ def _r18_3(ctx):
         worlds.append(((mode, "ClientTLSLayer"), False))
         worlds.append(((mode, "ServerTLSLayer", "ClientTLSLayer"), False))
         worlds.append(((mode, "ServerTLSLayer", "ClientTLSLayer", "HttpLayer"), False))
+    return worlds, modes_explicit, inner_stacks
+
+
+_FRESH_CLIENT = {"alpn": None, "alpn_offers": [], "sni": None, "cipher": None, "cipher_list": [], "tls_version": None, "timestamp_tls_setup": None, "certificate_list": [],
+                 "mitmcert": None, "tls": True, "tls_established": False}
+
+
+_LAYER_FILES = ("mitmproxy/proxy/layers/modes.py", PT, "mitmproxy/proxy/layers/http/__init__.py", "mitmproxy/proxy/layers/quic/__init__.py", "mitmproxy/proxy/layers/tcp.py",
+                "mitmproxy/proxy/layers/udp.py", "mitmproxy/proxy/layers/dns.py", "mitmproxy/proxy/layers/websocket.py", "mitmproxy/proxy/layer.py")
+
+
+def _layer_rec(m, name):
+    """abstract layer object of class ``name``: bound to the repository class (isinstance and type() follow the real class hierarchy)"""
+    for rel in _LAYER_FILES:
+        if m.exists(rel) and isinstance(m.module(rel).get(name), ast.ClassDef):
+            return Rec(name, _bases=LAYER_BASES.get(name, ("Layer",)), _impl=(rel, name))
+    return Rec(name, _bases=LAYER_BASES.get(name, ("Layer",)))
+
+
+def _override_in_world(m, stmts, expr, stack, client, P="tls_start"):
+    """value of the `client_alpn=` argument of AppData(...) when tls_start_client runs for ``client`` below the layer stack ``stack``"""
+    it = _Sem(m)
+    layers = [_layer_rec(m, n) for n in stack]
+    server = Rec("Server", alpn=None)
+    tls_start = Rec("TlsData", conn=client, context=Rec("Context", layers=layers, client=client, server=server), ssl_conn=None, is_dtls=False)
+    env = {P: tls_start, "client": client, "server": server, "self": Rec("TlsConfig", _impl=(T, "TlsConfig"))}
+    try:
+        it.block(stmts, env, m.module(T), 0)
+        return it.ev(expr, env, m.module(T), 0)
+    except _PyReturn:
+        raise AnalysisError("tls_start_client returns while computing client_alpn (not modelled)")
+    except Raised as r:
+        return f"<raises {r.name}>"
+
+
+def _r18_3(ctx):
+    m = ctx.model
+    tsc = ctx.func(T, "TlsConfig.tls_start_client")
+    # isinstance(x, modes.HttpProxy) is modelled by class-name equality: HttpProxy must have no subclass in its module
+    MODES = "mitmproxy/proxy/layers/modes.py"
+    m.cls(MODES, "HttpProxy")
+    subs = [q for q, d in m.module(MODES).defs().items() if isinstance(d, ast.ClassDef) and any(last_attr(b) == "HttpProxy" for b in d.bases)]
+    ctx.require(not subs, f"HttpProxy has subclasses {subs}: the sample layer stacks of R18.3 must be extended")
+    ctx.assume("isinstance(layer, modes.HttpProxy) holds exactly for HttpProxy itself (no subclass in proxy/layers/modes.py)")
+    ctx.require(len(tsc.args.args) == 2, "tls_start_client signature changed")
+    P = tsc.args.args[1].arg  # the hook's TlsData parameter (`tls_start`)
+    SSLCONN = f"{P}.ssl_conn"
+    spec = AppDataSpec(keep=lambda ev: ev[0] == "appdata" or (ev[0] == "assign" and ev[1] == SSLCONN), implicit_raises=False, tracked=(SSLCONN,))
+    res, eng = traces_of(tsc, spec)
+    term = [(t, how, st) for t, how, st in res if how == "return"]
+    withdata = [t for t, how, st in term if any(e[0] == "appdata" for e in t)]
+    ctx.require(withdata, "tls_start_client no longer stores AppData(...) with set_app_data")
+    ctx.paths += len(term)
+    where = (T, "TlsConfig.tls_start_client", tsc)
+    # every path on which mitmproxy creates the connection (assigns <tls_start>.ssl_conn) stores exactly one AppData on that connection
+    creating = [(t, st) for t, _, st in term if any(e[0] == "assign" for e in t)]
+    ctx.require(creating, f"tls_start_client: no path assigns {SSLCONN} (anchor changed)")
+    ctx.require(any(not any(e[0] == "assign" for e in t) for t, _, _ in term), f"tls_start_client: the early return for a connection provided by another addon ({SSLCONN} already set) is gone")
+
+    def stored_ok(t, st):
+        data = [e for e in t if e[0] == "appdata"]
+        conn = st.get(SSLCONN)
+        return len(data) == 1 and (data[0][3] == SSLCONN or data[0][2] == R(SSLCONN) or (data[0][2] == conn and isinstance(conn, tuple) and conn[0] == "newconn"))
+
+    bad_store = [t for t, st in creating if not stored_ok(t, st)]
+    ctx.check(not bad_store, "R18.3", where, "tls_start.ssl_conn.set_app_data(AppData(...)) exactly once",
+              f"{len(bad_store)} path(s) create the client TLS connection without storing the ALPN app data on it: the callback would read stale/no data", desc="AppData stored on ssl_conn on every creating path")
+    # values
+    bad = {"server_alpn": 0, "http2": 0}
+    for t in withdata:
+        vals = dict(next(e for e in t if e[0] == "appdata")[1])
+        if not {"client_alpn", "server_alpn", "http2"} <= set(vals):
+            raise AnalysisError(f"AppData fields changed: {sorted(vals)}")  # additional fields: R18.2 decides the table for each of their values
+        if vals["server_alpn"] != R(f"{P}.context.server.alpn"):
+            bad["server_alpn"] += 1
+        if vals["http2"] != R("ctx.options.http2"):
+            bad["http2"] += 1
+    ctx.check(bad["server_alpn"] == 0, "R18.3", where, "server_alpn=server.alpn", "the upstream protocol given to the callback is not tls_start.context.server.alpn", desc="server_alpn = tls_start.context.server.alpn")
+    ctx.check(bad["http2"] == 0, "R18.3", where, "http2=ctx.options.http2", "the http2 flag given to the callback is not the http2 option", desc="http2 = ctx.options.http2")
+    # client_alpn per world: the statements defining client_alpn are interpreted (pyint, which follows self. / module helpers and module
+    # constants by itself) on layer stacks read from next_layer.py.  That the value depends on the layer stack is part of what the
+    # worlds decide: they contain stacks where http/1.1 must be forced and stacks where it must not.
+    stmts, expr = _client_alpn_slice(tsc)
+    worlds, modes_explicit, inner_stacks = _worlds(ctx)
     ctx.note(f"R18.3 layer stacks: explicit-proxy modes {modes_explicit}, TLS stacks built by _setup_explicit_http_proxy {inner_stacks}")
+    ctx.require(any(swp for _, swp in worlds) and any(not swp for _, swp in worlds), "R18.3: the sample layer stacks no longer contain both kinds of world")
     SENT = b"<client.alpn>"
-    tmod = m.module(T)
     for stack, swp in worlds:
-        it = Interp(m)
-        layers = [Rec(n, _bases=LAYER_BASES.get(n, ("Layer",))) for n in stack]
-        client = Rec("Client", alpn=SENT)
-        server = Rec("Server", alpn=None)
-        tls_start = Rec("TlsData", conn=client, context=Rec("Context", layers=layers, client=client, server=server), ssl_conn=None, is_dtls=False)
-        env = {"tls_start": tls_start, "client": client, "server": server, "self": Rec("TlsConfig")}
-        try:
-            it.block(stmts, env, tmod, 0)
-            got = it.ev(expr, env, tmod, 0)
-        except Raised as r:
-            got = f"<raises {r.name}>"
+        got = _override_in_world(m, stmts, expr, stack, Rec("Client", **{**_FRESH_CLIENT, "alpn": SENT}), P=P)
         ctx.cells += 1
         want = b"http/1.1" if swp else SENT
         ctx.check(got == want, "R18.3", where, f"client_alpn for layer stack [{', '.join(stack)}]",
                   f"client_alpn is {got!r}, expected {want!r}: " + ("the outer connection of a secure web proxy may negotiate something other than HTTP/1.1" if swp else "HTTP/1.1 is forced on a connection that is not a secure web proxy's outer connection"),
                   desc=f"[{', '.join(stack)}] -> client_alpn {'http/1.1' if swp else 'client.alpn'}")
     n_worlds = len(worlds)
-    # the callback is installed
-    cc = [c for c in calls_in(tsc) if call_name(c).endswith("create_client_proxy_context")]
-    ctx.require(len(cc) == 1, "tls_start_client: create_client_proxy_context call not found exactly once")
-    kw = {k.arg: k.value for k in cc[0].keywords}
-    ctx.check(isinstance(kw.get("alpn_select_callback"), ast.Name) and kw["alpn_select_callback"].id == "alpn_select_callback", "R18.3", (T, "TlsConfig.tls_start_client", cc[0]),
-              "alpn_select_callback=alpn_select_callback", "the client context is created without mitmproxy's ALPN callback", desc="callback passed to create_client_proxy_context")
+    # the callback is installed: the call of create_client_proxy_context (in tls_start_client or a helper it calls) is handed the callback
+    cc = [(f, c) for f in _reachable(m, T, "TlsConfig", tsc) for c in calls_in(f) if call_name(c).split(".")[-1] == "create_client_proxy_context"]
+    ctx.require(len(cc) == 1, f"tls_start_client: create_client_proxy_context call found {len(cc)} times in it and its helpers (expected once)")
+    host, call = cc[0]
     ccp = ctx.func(NT, "create_client_proxy_context")
-    spec = FlowSpec(keep=lambda ev: ev[0] == "cond" or (ev[0] == "call" and ev[1].endswith("set_alpn_select_callback")), implicit_raises=False)
-    res, eng = traces_of(ccp, spec)
-    ok = True
-    n = 0
-    for t, how, st in res:
-        if how != "return":
-            continue
-        n += 1
-        given = any(e[0] == "cond" and e[1] == "alpn_select_callback is not None" and e[2] for e in t)
-        if given and not any(e[0] == "call" for e in t):
-            ok = False
-    inst = [c for c in calls_in(ccp) if call_name(c).endswith("set_alpn_select_callback")]
-    ok = ok and n > 0 and len(inst) == 1 and len(inst[0].args) == 1 and isinstance(inst[0].args[0], ast.Name) and inst[0].args[0].id == "alpn_select_callback"
-    ctx.check(ok, "R18.3", (NT, "create_client_proxy_context", ccp), "context.set_alpn_select_callback(alpn_select_callback)",
-              "a callback that is given is not installed on the context on every returning path", desc="create_client_proxy_context installs the callback")
-    # h2 is not mirrored upstream when http2 is off
+    a = ccp.args
+    ctx.require(not (a.vararg or a.kwarg), "create_client_proxy_context takes *args / **kwargs (not modelled)")
+    positional = [x.arg for x in a.posonlyargs + a.args]
+    given_as = [k.arg for k in call.keywords if k.arg and isinstance(k.value, ast.Name) and k.value.id == "alpn_select_callback"]
+    given_as += [positional[i] for i, x in enumerate(call.args) if i < len(positional) and isinstance(x, ast.Name) and x.id == "alpn_select_callback"]
+    cbparam = given_as[0] if given_as else None
+    ctx.check(cbparam is not None and cbparam in positional + [x.arg for x in a.kwonlyargs], "R18.3", (T, getattr(host, "_qual", host.name), call),
+              "alpn_select_callback=alpn_select_callback", "the client context is created without mitmproxy's ALPN callback", desc="callback passed to create_client_proxy_context")
+    if cbparam is not None:
+        # in create_client_proxy_context every returning path that is possible when the callback is given installs it
+        GIVEN = object()
+
+        def about_param(node):
+            names = {n.id for n in ast.walk(node) if isinstance(n, ast.Name)}
+            return names == {cbparam} and all(isinstance(n, (ast.Name, ast.Compare, ast.UnaryOp, ast.BoolOp, ast.Constant, ast.expr_context, ast.cmpop, ast.unaryop, ast.boolop)) for n in ast.walk(node))
+
+        class InstSpec(FlowSpec):
+            def events(self, node, st):
+                out = list(super().events(node, st))
+                for n in eval_order(node):
+                    if isinstance(n, ast.Call) and isinstance(n.func, ast.Attribute) and n.func.attr == "set_alpn_select_callback":
+                        out.append(("install", len(n.args) == 1 and not n.keywords and isinstance(n.args[0], ast.Name) and n.args[0].id == cbparam))
+                if isinstance(node, (ast.Assign, ast.AnnAssign, ast.AugAssign)) and any(isinstance(x, ast.Name) and x.id == cbparam and isinstance(x.ctx, ast.Store) for x in ast.walk(node)):
+                    raise AnalysisError(f"create_client_proxy_context rebinds its parameter {cbparam} (not modelled)")
+                return out
+
+        res, eng = traces_of(ccp, InstSpec(keep=lambda ev: ev[0] in ("cond", "install"), implicit_raises=False))
+        n = missing = 0
+        for t, how, st in res:
+            if how != "return" or not feasible(t, about_param, None, env={cbparam: GIVEN}, what="create_client_proxy_context"):
+                continue
+            n += 1
+            if not any(e == ("install", True) for e in t):
+                missing += 1
+        ctx.require(n > 0, "create_client_proxy_context: no returning path with a callback given")
+        ctx.check(missing == 0, "R18.3", (NT, "create_client_proxy_context", ccp), "context.set_alpn_select_callback(alpn_select_callback)",
+                  f"a callback that is given is not installed on the context on {missing} of {n} returning path(s)", desc="create_client_proxy_context installs the callback")
+    # h2 is not mirrored upstream when http2 is off: the statements of tls_start_server that set <server>.alpn_offers (directly or in a helper)
+    # are interpreted on a fresh server connection for several client offer lists
     tss = ctx.func(T, "TlsConfig.tls_start_server")
-    assigns = [s for s in walk_in_order(tss) if isinstance(s, ast.Assign) and any(attr_chain(t) == "server.alpn_offers" for t in s.targets)]
-    ctx.require(assigns, "tls_start_server no longer assigns server.alpn_offers")
-
-    class OffSpec(FlowSpec):
-        def events(self, node, st):
-            out = list(super().events(node, st))
-            if isinstance(node, ast.Assign) and any(attr_chain(t) == "server.alpn_offers" for t in node.targets):
-                out.append(("offers", node.value))
-            return out
-
-    res, eng = traces_of(tss, OffSpec(keep=lambda ev: ev[0] == "offers" or (ev[0] == "cond" and ev[1] in ("ctx.options.http2", "client.alpn_offers", "server.alpn_offers")), implicit_raises=False))
-    client_offers = [H2, H11, H3, UNK]
-
-    def off_atom(node, env):
-        if isinstance(node, ast.Attribute) and attr_chain(node) == "client.alpn_offers":
-            return list(client_offers)
-        if isinstance(node, ast.Call) and call_name(node) in ("tuple", "list") and len(node.args) == 1:
-            return list(ceval(node.args[0], env, off_atom, "tls_start_server offers"))
-        raise NotAnAtom
-
-    n_off = leaking = 0
-    for t, how, st in res:
-        if how != "return":
-            continue
-        http2_off = any(e[0] == "cond" and e[1] == "ctx.options.http2" and not e[2] for e in t)
-        http2_on = any(e[0] == "cond" and e[1] == "ctx.options.http2" and e[2] for e in t)
-        for e in t:
-            if e[0] == "offers" and not http2_on:
-                val = ceval(e[1], {}, off_atom, "tls_start_server offers")
-                if val:
-                    n_off += 1
-                    if H2 in val or not http2_off:
-                        leaking += 1
-    ctx.require(n_off > 0, "tls_start_server: no path mirrors the client's offers with http2 off (anchor changed)")
-    ctx.check(leaking == 0, "R18.3", (T, "TlsConfig.tls_start_server", tss), "server.alpn_offers without h2 when http2 is off",
-              f"{leaking} path(s) mirror h2 to the upstream server although http2 is disabled (or without consulting the option): upstream may negotiate h2 and the client is then given h2",
+    ctx.require(len(tss.args.args) == 2, "tls_start_server signature changed")
+    PS = tss.args.args[1].arg
+    offer_stmts = _slice_for(tss, lambda st: _stores_attr(m, T, "TlsConfig", st, "alpn_offers"))
+    ctx.require(offer_stmts, "tls_start_server no longer sets alpn_offers of the server connection")
+    tmod = m.module(T)
+    leaking, mirrored = [], 0
+    for client_offers in ([H2, H11, H3, UNK], [H11, H2], [H2], [H11]):
+        for http2 in (True, False):
+            it = _Sem(m)
+            it.overrides[(T, "ctx")] = Rec("ctx", options=Rec("Options", http2=http2))
+            client = Rec("Client", **{**_FRESH_CLIENT, "alpn_offers": list(client_offers)})
+            server = Rec("Server", alpn=None, alpn_offers=[], sni=None, address=("example.org", 443), cipher_list=[], tls=True)
+            tls_start = Rec("TlsData", conn=server, context=Rec("Context", client=client, server=server, layers=[]), ssl_conn=None, is_dtls=False)
+            env = {PS: tls_start, "self": Rec("TlsConfig", _impl=(T, "TlsConfig"))}
+            try:
+                it.block(offer_stmts, env, tmod, 0)
+            except _PyReturn:
+                pass  # an early return among the statements that set the offers
+            except Raised as r:
+                raise AnalysisError(f"tls_start_server: the statements setting alpn_offers raise {r.name} in the interpretation")
+            got = list(server.alpn_offers or [])
+            ctx.cells += 1
+            if http2:
+                ctx.require(got == list(client_offers), f"tls_start_server: with http2 on the client's offers {client_offers} are not mirrored as they are ({got}): anchor changed")
+                mirrored += 1
+            elif H2 in got:
+                leaking.append((client_offers, got))
+            elif got:
+                mirrored += 1
+    ctx.require(mirrored > 4, "tls_start_server: the client's offers are not mirrored upstream (anchor changed)")
+    ctx.check(not leaking, "R18.3", (T, "TlsConfig.tls_start_server", tss), "server.alpn_offers without h2 when http2 is off",
+              f"h2 is mirrored to the upstream server although http2 is disabled, e.g. client offers {leaking[0][0] if leaking else ''} -> server offers {leaking[0][1] if leaking else ''}: upstream may negotiate h2 and the client is then given h2",
               desc="h2 filtered from mirrored offers when http2 is off")
     ctx.expect_instances("R18.3", 3 + n_worlds + 3)
 
 
 def _r18_4(ctx):
-    """Cooperating site of R18.3: tls_start_client reads `client.alpn` as the *override* handed to the callback.  For TLS-over-TLS (a secure web
-    proxy's CONNECT tunnel) the same Client object already carries the outer session's values, so ClientTLSLayer.__init__ must reset every
-    attribute the override is computed from before the inner handshake - otherwise the outer protocol (http/1.1) is forced on the inner session
-    although the upstream protocol is known.  The statements of __init__ before super().__init__ are interpreted (pyint) on a client that has
-    completed an outer session."""
-    from ..pyint import Interp
-    from ..pyint import Raised
-    from ..pyint import Rec
-
+    """Cooperating site of R18.3: tls_start_client computes the *override* handed to the callback from attributes of the Client object.  For
+    TLS-over-TLS (a secure web proxy's CONNECT tunnel) the same Client object already carries the outer session's values, so
+    ClientTLSLayer.__init__ must reset every attribute the override is computed from before the inner handshake - otherwise the outer protocol
+    (http/1.1) is forced on the inner session although the upstream protocol is known.  Which attributes the override depends on is found
+    semantically (the override is recomputed with one attribute of an established session changed at a time - helpers are followed by the
+    interpreter); the statements of __init__ before super().__init__ are interpreted (pyint) on a client that has completed an outer session."""
     m = ctx.model
     tsc = ctx.func(T, "TlsConfig.tls_start_client")
     stmts, expr = _client_alpn_slice(tsc)
+    ctx.require(len(tsc.args.args) == 2, "tls_start_client signature changed")
+    P = tsc.args.args[1].arg
+    OUTER = {"alpn": b"http/1.1", "alpn_offers": [b"http/1.1"], "sni": "proxy.example", "cipher": "TLS_AES_128_GCM_SHA256", "cipher_list": ["x"], "tls_version": "TLSv1.3",
+             "timestamp_tls_setup": 1.0, "certificate_list": ["cert"], "mitmcert": "cert", "tls": True, "tls_established": True}
+    OTHER = {"alpn": b"h2", "alpn_offers": [b"h2", b"zz"], "sni": "other.example", "cipher": "OTHER", "cipher_list": ["y", "z"], "tls_version": "TLSv1.2",
+             "timestamp_tls_setup": 2.0, "certificate_list": ["cert", "cert2"], "mitmcert": "cert2", "tls": False, "tls_established": False}
+    ctx.require(set(OUTER) == set(_FRESH_CLIENT) == set(OTHER), "R18.4: client models out of sync")
+    worlds, modes_explicit, inner_stacks = _worlds(ctx)
+    # the inner handshake of a TLS-over-TLS session: stacks as NextLayer builds them for a CONNECT through a secure web proxy
+    inner = [(mode, *st, "HttpStream", "ClientTLSLayer") for mode in modes_explicit for st in inner_stacks]
+    inner += [(mode, *st, "HttpStream", "ServerTLSLayer", "ClientTLSLayer") for mode in modes_explicit for st in inner_stacks]
     read = set()
-    aliases = {"client"}
-    for st in stmts:
-        if isinstance(st, (ast.Assign, ast.AnnAssign)) and isinstance(st.value, ast.Attribute) and attr_chain(st.value) in ("tls_start.conn", "tls_start.context.client"):
-            t = st.targets[0] if isinstance(st, ast.Assign) else st.target
-            if isinstance(t, ast.Name):
-                aliases.add(t.id)
-    for n in [x for st in stmts for x in ast.walk(st)] + list(ast.walk(expr)):
-        if isinstance(n, ast.Attribute) and isinstance(n.ctx, ast.Load):
-            ch = attr_chain(n)
-            for a in aliases:
-                if ch.startswith(a + ".") and ch.count(".") == 1:
-                    read.add(n.attr)
-            if ch.startswith("tls_start.conn.") and ch.count(".") == 2:
-                read.add(n.attr)
-    ctx.require(read, "tls_start_client: the client_alpn override no longer reads an attribute of the client connection (R18.4 premise changed)")
+    for stack in [w for w, swp in worlds if not swp]:
+        base = _override_in_world(m, stmts, expr, stack, Rec("Client", **OUTER), P=P)
+        ctx.require(not (isinstance(base, str) and base.startswith("<raises")), f"tls_start_client's override computation {base} on an established client (R18.4 model incomplete)")
+        for a in OUTER:
+            if _override_in_world(m, stmts, expr, stack, Rec("Client", **{**OUTER, a: OTHER[a]}), P=P) != base:
+                read.add(a)
+            ctx.cells += 1
+    ctx.require(read, "tls_start_client: the client_alpn override no longer depends on an attribute of the client connection (R18.4 premise changed)")
     init = ctx.func(PT, "ClientTLSLayer.__init__")
     params = [a.arg for a in init.args.args]
     ctx.require(len(params) == 2, "ClientTLSLayer.__init__ signature changed")
-    pre = []
-    for st in init.body:
-        if any(isinstance(c, ast.Call) and isinstance(c.func, ast.Attribute) and c.func.attr == "__init__" for c in ast.walk(st)):
-            break
-        pre.append(st)
-    ctx.require(len(pre) < len(init.body), "ClientTLSLayer.__init__: super().__init__ call not found")
-    OUTER = {"alpn": b"http/1.1", "alpn_offers": [b"http/1.1"], "sni": "proxy.example", "cipher": "TLS_AES_128_GCM_SHA256", "cipher_list": ["x"], "tls_version": "TLSv1.3",
-             "timestamp_tls_setup": 1.0, "certificate_list": ["cert"], "mitmcert": "cert", "tls": True, "tls_established": True}
-    for a in read:
-        ctx.require(a in OUTER, f"tls_start_client reads client.{a}, which the R18.4 model of an established outer session does not know")
+    is_super_init = lambda st: any(isinstance(c, ast.Call) and isinstance(c.func, ast.Attribute) and c.func.attr == "__init__" for c in ast.walk(st))  # noqa: E731
+    ctx.require(any(is_super_init(st) for st in init.body), "ClientTLSLayer.__init__: super().__init__ call not found")
+    ctx.assume("the base classes' __init__ (TLSLayer / TunnelLayer / Layer) do not touch the TLS attributes of context.client; they store context as self.context")
     client = Rec("Client", **OUTER)
-    context = Rec("Context", client=client, layers=[Rec("HttpProxy"), Rec("ClientTLSLayer"), Rec("HttpLayer")])
-    it = Interp(m)
-    try:
-        it.block(pre, {params[0]: Rec("ClientTLSLayer"), params[1]: context}, m.module(PT), 0)
-    except Raised as r:
-        raise AnalysisError(f"ClientTLSLayer.__init__ raises {r.name} on a TLS-over-TLS client in the interpretation")
+    context = Rec("Context", client=client, layers=[_layer_rec(m, "HttpProxy"), _layer_rec(m, "ClientTLSLayer"), _layer_rec(m, "HttpLayer")])
+    me = Rec("ClientTLSLayer", _impl=(PT, "ClientTLSLayer"), context=context, conn=client)
+    it = _Sem(m)
+    env = {params[0]: me, params[1]: context}
+    seen_super, not_followed = False, []
+    for st in init.body:
+        if is_super_init(st):
+            seen_super = True
+            continue
+        try:
+            it.stmt(st, env, m.module(PT), 0)
+        except _PyReturn:
+            break  # an early `return` of __init__
+        except Raised as r:
+            raise AnalysisError(f"ClientTLSLayer.__init__ raises {r.name} on a TLS-over-TLS client in the interpretation")
+        except AnalysisError as e:
+            if not seen_super:
+                raise
+            not_followed.append(f"{norm(st)[:60]}: {e}")  # after super().__init__: needs state of the base classes the model does not have
+
+    def undecided(what):
+        if not_followed:
+            raise AnalysisError(f"ClientTLSLayer.__init__: {what} and statements after super().__init__ could not be interpreted ({not_followed[0]})")
+        return False
+
     for a in sorted(read):
         v = getattr(client, a)
-        ctx.check(not v, "R18.4", (PT, "ClientTLSLayer.__init__", init), f"client.{a} reset before the inner (TLS-over-TLS) handshake",
+        ctx.check(not v or undecided(f"client.{a} is not reset"), "R18.4", (PT, "ClientTLSLayer.__init__", init), f"client.{a} reset before the inner (TLS-over-TLS) handshake",
                   f"client.{a} still holds the outer session's value {v!r} when the inner handshake starts: tls_start_client passes it to the ALPN callback as an override, "
                   "so the inner session is pinned to the outer protocol instead of following the upstream server", desc=f"TLS-over-TLS: client.{a} cleared by ClientTLSLayer.__init__")
-    ctx.expect_instances("R18.4", 1)
+    # and semantically: after the reset the override equals that of a fresh connection (no protocol is forced on the inner session)
+    for stack in inner:
+        got = _override_in_world(m, stmts, expr, stack, client, P=P)
+        fresh = _override_in_world(m, stmts, expr, stack, Rec("Client", **_FRESH_CLIENT), P=P)
+        ctx.check(got == fresh or undecided("the override differs from a fresh client's"), "R18.4", (PT, "ClientTLSLayer.__init__", init), f"override after the reset for layer stack [{', '.join(stack)}]",
+                  f"after ClientTLSLayer.__init__ the ALPN override computed by tls_start_client is {got!r}, a fresh client connection gives {fresh!r}: state of the outer session leaks into the inner handshake",
+                  desc=f"[{', '.join(stack)}]: override after reset = override of a fresh client ({fresh!r})")
+    ctx.expect_instances("R18.4", 2)
 
 
 def check(ctx):
@@ -544,11 +1792,13 @@ def check(ctx):
     ctx.trust("pyOpenSSL set_alpn_select_callback / NO_OVERLAPPING_PROTOCOLS semantics")
     fn = ctx.func(T, "alpn_select_callback")
     params = [a.arg for a in fn.args.args]
-    ctx.require(len(params) == 2, "alpn_select_callback signature changed")
-    _r18_1(ctx, fn, params[1])
-    _r18_2(ctx, fn)
-    _r18_3(ctx)
-    _r18_4(ctx)
+    ctx.require(len(params) == 2 and not (fn.args.vararg or fn.args.kwarg or fn.args.kwonlyargs), "alpn_select_callback signature changed")
+    table = _run_table(ctx, fn)
+    # each rule is guarded: what a rule cannot model is reported (exit 2) only if no rule finds a violation
+    ctx.guard(_r18_1, ctx, fn, params[1], table)
+    ctx.guard(_r18_2, ctx, fn, table)
+    ctx.guard(_r18_3, ctx)
+    ctx.guard(_r18_4, ctx)
 
 
 MUTANTS = [
